@@ -1,343 +1,688 @@
-"""C20 - Cargo version requirements and cfg() expressions (DESIGN section 2 C20, data sheet A.17)."""
+"""C20 - Cargo version requirements and cfg() expressions (DESIGN section 2 C20, data sheet A.17).
+
+Every rule decides from structure: decision tables extracted by path enumeration (sa.tables / sa.paths),
+worlds enumerated over the tables' own atoms, row effects compared *symbolically* (normalised expression shape
+after copy propagation along the row), regex-language facts (sa.rx), CFG dominance / exception edges (sa.cfg).
+No function body is evaluated on input values."""
 from __future__ import annotations
 
 import ast
+import copy
 import itertools
+import re as _re
 import typing as T
 
-from ..core import Module, Undecided, norm, short, attr_chain, walk_no_nested
+from ..core import Module, Undecided, norm, short, attr_chain, walk_no_nested, names_in
 from ..report import Rule, RuleCtx
 from ..cfg import CFG
-from ..consteval import fold_expr, Regex, Folder
-from .. import rx
+from ..consteval import fold_expr, Regex
+from ..paths import enumerate_paths, Path
+from .. import rx, tables
+from ..tables import Atom
 from . import cmpcore
-from .c20_eval import Interp, Obj, ClassRef, ExcClass, Namespace, EnumVal, Raised, Stream, last_call_stmt, dataclass_model
 
 VERSION = 'mesonbuild/cargo/version.py'
 CFGPY = 'mesonbuild/cargo/cfg.py'
 
 EXPLANATION = (
-    'Decides structural clauses of C20.  R1: the decision function of cargo_parse (operator, number of specified components, '
-    'zero pattern of major/minor/patch, pre-release flags) -> set of (comparator, bound) equals the Cargo table of A.17 on every '
-    'world, plus the pre-release gate and the conjunction of the returned matcher; split() canonicalisation (two-character '
-    'operators first, wildcard -> tilde, bare * skipped, default caret); next_ver (bump, zero the lower components, drop the '
-    'pre-release), the list constructor and has_prerelease (slot 3).  R2: SemVer has one comparison core with symmetric ranking '
-    'keys [kind: int below str, value, length]; tokenizer regex language facts (digit branch only digits, identifier branch '
-    'disjoint from it and free of "." and "+", build branch anchored on "+") and the transition table of the tokenizer loop on '
-    'witness tokens taken from that language by a product automaton: slot 3 is 0/-1, build metadata stops tokenisation, every '
-    'all-digit identifier is stored as int.  R3: _eval_cfg has an arm with the reference denotation for every IR class _parse can '
-    'build (children are oracles); keyword -> token -> IR class maps agree; a string literal is one STRING token.  R4: every raise '
-    'in cfg.py is a MesonException, every next() of _parse is covered by the StopIteration handler of parse, the stream must be '
-    'exhausted after _parse, every token read is checked before the parse continues (CFG dominance), and the decision table of '
-    '_parse over token-kind worlds (well-formed shapes and all their single-edit neighbours, nested expressions as oracle '
-    'non-terminal) equals the cfg grammar the project pins in its tests (trailing comma = malformed).  '
-    'The tables are evaluated by a bounded evaluator over the function ASTs with model collaborators (sa/rules/c20_eval.py); '
-    'no repository code is imported or executed.  Does NOT decide pointwise agreement with Cargo on concrete requirement x version '
-    'strings, tokenisation of strings outside the witness classes (e.g. an alphanumeric identifier that starts with a digit inside '
-    'the pre-release section), or escapes inside cfg string literals.')
-ASSUMPTIONS = ['operator.lt/gt/le/ge/eq/ne, Python int/str/list comparison and the whitelisted str/list/dict methods behave as documented',
-               're alternation/finditer semantics as documented; the NFA of sa.rx over-approximates look-around (none is used here)',
-               'dataclasses generates positional constructors in field order']
-TECHNIQUE = 'decision tables over model worlds (bounded AST evaluator) + regex-language product automaton + CFG dominance/exception edges'
+    'Decides structural clauses of C20.  R1a: the prefix chain of split() (decision table of the loop body over startswith/endswith/== '
+    'atoms; two-character operators win, slice lengths equal the operator length, wildcard -> tilde on the text without ".*", bare * '
+    'skipped, default caret, strip before the tests).  R1b: the decision table of the cargo_parse loop body: per operator row the appended '
+    '(comparator, bound) pairs compared symbolically with A.17 (bound = the version, or next_ver(index expression): count-1 for <=, 1/0 on '
+    'count >= 2 for ~, first-non-zero search over three components with default 0 for ^), sticky pre-release flag, and the table of the '
+    'returned matcher (gate, conjunction, operand order, empty requirement).  R1c: next_ver / list constructor / has_prerelease by '
+    'expression shape (copy of the first three components, +1 at the index, zeroing loop over range(index+1, 3), slot 3).  R2a: one '
+    'comparison core with symmetric ranking keys [kind: int below str, value, length].  R2b: tokenizer regex-language facts and the '
+    'decision table of the tokenizer loop body: int() conversion of digit tokens, slot 3 = -1 after padding, build branch breaks, and '
+    '- decided with the product automaton - an identifier whose language (after the section-marker strip the row performs) meets [0-9]+ '
+    'must be appended through an isdigit()-guarded int().  R3a: _eval_cfg has one arm per IR class _parse can build, each returning the '
+    'denoting construct (in / get == / not / any / all).  R3b: lexer decision table (keyword and delimiter tokens; inside a string literal '
+    'only the closing quote acts), parser token -> class map, and the composition keyword -> token -> class -> builtin.  R4a: only '
+    'MesonException is raised, StopIteration of _parse is converted in parse (CFG exception edge), leftover tokens are rejected, every token '
+    'read is checked before the parse continues (CFG dominance), token payload guards, eval_cfg wrapper shape.  R4b: every enumerated path of '
+    '_parse, abstracted to its sequence of reads / expectations / tests / recursive calls, is a sentence of the cfg grammar pinned by the '
+    'project tests (trailing comma = malformed) and builds the production\'s IR from the right payloads.  '
+    'NOT decided: pointwise agreement with Cargo on concrete requirement x version strings; what the tokenizer does on concrete texts '
+    '(e.g. an alphanumeric pre-release identifier that starts with a digit is split by the digit branch); the search-loop idioms are '
+    'recognised by shape (other spellings end undecided); escapes inside cfg string literals.')
+ASSUMPTIONS = ['operator.lt/gt/le/ge/eq/ne, Python int/str/list comparison, str.startswith/endswith/strip/isdigit, any/all behave as documented',
+               're alternation/finditer semantics as documented; group n is non-empty exactly when alternative n matched',
+               'SemVer.specified_count ranges over 1..3 for a requirement; dataclasses generate positional constructors in field order']
+TECHNIQUE = ('decision tables by path enumeration over canonical atoms with world enumeration + symbolic comparison of row effects after copy '
+             'propagation; regex-language product automaton; CFG dominance and exception edges; path-shape grammar check for the recursive parser')
 
 OPS = ['>=', '<=', '!=', '~', '=', '^', '>', '<']
 OPNAME = {'>=': 'ge', '<=': 'le', '!=': 'ne', '=': 'eq', '>': 'gt', '<': 'lt'}
 
 
-def _undecided_on_raise(what: str, r: Raised) -> Undecided:
-    return Undecided(f'{what}: the evaluated code raised {r.exc!r} in a world where the reference expects a value')
+# ------------------------------------------------------------------------------------------ shared helpers
+def eff(st: ast.AST) -> T.Optional[str]:
+    """Effect text of a simple statement (assignments, calls, yields); docstrings and the like are no effects."""
+    if isinstance(st, (ast.Assign, ast.AnnAssign, ast.AugAssign)):
+        return norm(st)
+    if isinstance(st, ast.Expr) and isinstance(st.value, (ast.Call, ast.Yield)):
+        return norm(st)
+    return None
 
 
-# =====================================================================================================
-# R1  requirement table
-# =====================================================================================================
+def stmts_of(row: tables.Row) -> T.List[ast.stmt]:
+    return [ast.parse(e).body[0] for e in row.effects]
 
-def ref_split(req: str) -> T.List[T.Tuple[str, str]]:
-    """Cargo reference (specifying-dependencies: comparison / tilde / caret / wildcard requirements)."""
-    out: T.List[T.Tuple[str, str]] = []
-    req = req.strip()
-    if not req:
-        return out
-    for part in req.split(','):
-        part = part.strip()
-        if part == '*':
-            continue
-        for op in sorted(OPS, key=len, reverse=True):
-            if part.startswith(op):
-                out.append((op, part[len(op):].strip()))
-                break
+
+def expr_of(text: str) -> ast.expr:
+    return ast.parse(text, mode='eval').body
+
+
+class _Sub(ast.NodeTransformer):
+    def __init__(self, env: T.Dict[str, ast.AST]):
+        self.env = env
+
+    def visit_Name(self, n: ast.Name) -> ast.AST:
+        if isinstance(n.ctx, ast.Load) and n.id in self.env:
+            return copy.deepcopy(self.env[n.id])
+        return n
+
+
+def resolve(e: ast.AST, env: T.Dict[str, ast.AST]) -> ast.AST:
+    return _Sub(env).visit(copy.deepcopy(e))
+
+
+def propagate(stmts: T.Sequence[ast.stmt], env: T.Optional[T.Dict[str, ast.AST]] = None, opaque: T.Iterable[str] = ()) -> T.Tuple[T.Dict[str, ast.AST], T.List[ast.stmt]]:
+    """Copy propagation along one row: local name -> defining expression (earlier definitions substituted);
+    returns the final environment and the non-binding statements with the environment of their position applied."""
+    env = dict(env or {})
+    rest: T.List[ast.stmt] = []
+    keep = set(opaque)
+    for st in stmts:
+        if isinstance(st, ast.Assign) and len(st.targets) == 1 and isinstance(st.targets[0], ast.Name) and st.targets[0].id in keep:
+            rest.append(resolve(st, env))     # type: ignore[arg-type]
+        elif isinstance(st, ast.Assign) and len(st.targets) == 1 and isinstance(st.targets[0], ast.Name):
+            env[st.targets[0].id] = resolve(st.value, env)
+        elif isinstance(st, ast.AnnAssign) and isinstance(st.target, ast.Name) and st.value is not None:
+            env[st.target.id] = resolve(st.value, env)
+        elif isinstance(st, ast.Assign) and len(st.targets) == 1 and isinstance(st.targets[0], ast.Tuple) and isinstance(st.value, ast.Tuple) \
+                and len(st.value.elts) == len(st.targets[0].elts) and all(isinstance(x, ast.Name) for x in st.targets[0].elts):
+            vals = [resolve(v, env) for v in st.value.elts]
+            for t, v in zip(st.targets[0].elts, vals):
+                env[t.id] = v   # type: ignore[attr-defined]
         else:
-            if part.endswith('.*'):
-                out.append(('~', part[:-2]))
-            else:
-                out.append(('^', part))
-    return out
+            st2 = resolve(st, env)
+            rest.append(st2)    # type: ignore[arg-type]
+            # a binding this rule does not model: forget the names it writes
+            for n in ast.walk(st):
+                if isinstance(n, ast.Name) and isinstance(n.ctx, ast.Store):
+                    env.pop(n.id, None)
+    return env, rest
 
 
-def _split_samples() -> T.Dict[str, T.List[str]]:
-    fam: T.Dict[str, T.List[str]] = {}
-    for op in OPS:
-        fam[f'operator {op}'] = [op + sp + tail for sp in ('', ' ') for tail in ('1', '1.2', '1.2.3', '0.0.3-rc.1')]
-    fam['bare version (caret default)'] = ['1', '1.2', '0.2.3', ' 1.2.3 ', '0.0.0']
-    fam['wildcard'] = ['1.*', '1.2.*', ' 0.* ', '*', ' * ']
-    fam['empty'] = ['', '   ']
-    fam['comma list'] = ['>=1, <2', '>= 1.2 ,< 2', '1, *', '*, ~1.2', ' ~1.2 , =3 ', '>1,<=2,!=1.5', '1.*, <1.5', '^1,>1.0.1']
-    return fam
+def strip_wrappers(e: ast.AST, names: T.Iterable[str] = ('strip', 'lstrip')) -> T.Tuple[ast.AST, T.List[str]]:
+    """Peel argument-less .strip()/.lstrip() calls."""
+    seen: T.List[str] = []
+    while isinstance(e, ast.Call) and isinstance(e.func, ast.Attribute) and e.func.attr in names and not e.args and not e.keywords:
+        seen.append(e.func.attr)
+        e = e.func.value
+    return e, seen
+
+
+def const_of(e: ast.AST) -> T.Any:
+    """Value of a literal constant (incl. negative numbers and tuples/sets of constants); Undecided otherwise."""
+    try:
+        return ast.literal_eval(e)
+    except Exception:
+        raise Undecided(f'not a literal constant: {short(e)}')
+
+
+def is_const(e: ast.AST) -> bool:
+    try:
+        ast.literal_eval(e)
+        return True
+    except Exception:
+        return False
+
+
+# =====================================================================================================
+# R1a  split(): prefix chain
+# =====================================================================================================
+
+def _text_atom(a: Atom, var: str) -> T.Callable[[str], bool]:
+    """Truth of an atom of split()'s loop body for a *class of requirement texts* given by a representative."""
+    if a.kind == 'cmp' and a.args[0] == 'eq' and a.args[1] == var and is_const(expr_of(a.args[2])):
+        c = const_of(expr_of(a.args[2]))
+        return lambda t: t == c
+    if a.kind == 'truth':
+        e = expr_of(a.args[0])
+        if isinstance(e, ast.Call) and isinstance(e.func, ast.Attribute) and norm(e.func.value) == var and len(e.args) == 1 and is_const(e.args[0]):
+            c = const_of(e.args[0])
+            if isinstance(c, (str, tuple)) and e.func.attr == 'startswith':
+                return lambda t: t.startswith(c)
+            if isinstance(c, (str, tuple)) and e.func.attr == 'endswith':
+                return lambda t: t.endswith(c)
+    if a.kind == 'in' and is_const(expr_of(a.args[1])):
+        k = _leading_len(expr_of(a.args[0]), var)
+        cs = const_of(expr_of(a.args[1]))
+        if k is not None and isinstance(cs, (tuple, set, list, frozenset)):
+            return lambda t: t[:k] in cs
+    raise Undecided(f'split: atom outside the prefix/suffix vocabulary: {a!r}')
+
+
+def _leading_len(e: ast.AST, var: str) -> T.Optional[int]:
+    """k when e denotes the first k characters of `var` (var[0:k], var[:k], var[0])."""
+    if isinstance(e, ast.Subscript) and norm(e.value) == var:
+        s = e.slice
+        if isinstance(s, ast.Slice) and s.step is None and (s.lower is None or (isinstance(s.lower, ast.Constant) and s.lower.value == 0)) \
+                and isinstance(s.upper, ast.Constant) and isinstance(s.upper.value, int) and s.upper.value > 0:
+            return s.upper.value
+        if isinstance(s, ast.Constant) and s.value == 0:
+            return 1
+    return None
+
+
+def _tail_from(e: ast.AST, var: str) -> T.Optional[int]:
+    """k when e denotes var[k:]."""
+    if isinstance(e, ast.Subscript) and norm(e.value) == var and isinstance(e.slice, ast.Slice) and e.slice.upper is None and e.slice.step is None \
+            and isinstance(e.slice.lower, ast.Constant) and isinstance(e.slice.lower.value, int):
+        return e.slice.lower.value
+    return None
+
+
+def _head_upto(e: ast.AST, var: str) -> T.Optional[int]:
+    """k when e denotes var[:-k]."""
+    if isinstance(e, ast.Subscript) and norm(e.value) == var and isinstance(e.slice, ast.Slice) and e.slice.step is None \
+            and (e.slice.lower is None or (isinstance(e.slice.lower, ast.Constant) and e.slice.lower.value == 0)) and e.slice.upper is not None and is_const(e.slice.upper):
+        u = const_of(e.slice.upper)
+        if isinstance(u, int) and u < 0:
+            return -u
+    return None
 
 
 def r1_split(ctx: RuleCtx) -> None:
     mod = ctx.repo.module(VERSION)
     fn = mod.func('split')
-    n = sum(len(v) for v in _split_samples().values())
-    for family, samples in _split_samples().items():
-        bad = None
-        for s in samples:
-            it = Interp({}, name='split')
-            try:
-                got = it.closure(fn)(s)
-            except Raised as r:
-                raise _undecided_on_raise(f'split({s!r})', r)
-            got = [tuple(x) if isinstance(x, (tuple, list)) else x for x in got]
-            want = ref_split(s)
-            if got != want:
-                node = last_call_stmt(it.trace, 'lstrip') or (it.trace[-1] if it.trace else fn)
-                ys = [st for st in it.trace if isinstance(st, ast.Expr) and isinstance(st.value, ast.Yield)]
-                bad = (s, got, want, ys[-1] if ys else node)
-                break
-        if bad is None:
-            ctx.ok(f'split: {family}: {len(samples)} requirement texts canonicalised as Cargo documents')
+    loops = [s for s in fn.body if isinstance(s, ast.For)]
+    if len(loops) != 1 or not isinstance(loops[0].target, ast.Name):
+        raise Undecided('split: expected one loop over the comma separated parts')
+    loop = loops[0]
+    var = loop.target.id
+    param = fn.args.args[0].arg
+    it = loop.iter
+    ok_iter = isinstance(it, ast.Call) and isinstance(it.func, ast.Attribute) and it.func.attr == 'split' and [norm(a) for a in it.args] == ["','"] \
+        and names_in(it.func.value) == {param}
+    ctx.require(ok_iter, 'split: the requirement is cut at commas', mod, 'split', loop.iter, f'the parts are not produced by <requirement>.split(\',\'): {short(loop.iter)}')
+    tab = tables.extract(fn, body=loop.body, effects=eff, inline=False, name='split:loop')
+    preds = {a: _text_atom(a, var) for a in tab.atoms()}
+    # the prefixes the table itself tests, plus the documented operators
+    heads: T.Set[str] = set(OPS) | {''}
+    for a in tab.atoms():
+        for n in ast.walk(expr_of(a.args[0] if a.kind == 'truth' else a.args[-1])):
+            if isinstance(n, ast.Constant) and isinstance(n.value, str) and n.value not in ('*', '.*'):
+                heads.add(n.value)
+    classes = ['*'] + [h + t for h in sorted(heads, key=lambda x: (len(x), x)) for t in ('1', '1.*')]
+    ctx.floor('split: text classes (operator prefix x wildcard suffix)', len(classes), 19)
+    for text in classes:
+        world = {a: p(text) for a, p in preds.items()}
+        rows = tab.fire(world)
+        if len(rows) != 1:
+            raise Undecided(f'split: {len(rows)} rows fire for a part like {text!r}')
+        row = rows[0]
+        stmts = stmts_of(row)
+        node = row.path.events[-1].node if row.path.events else loop
+        # the part is stripped before any test
+        first = row.path.events[0] if row.path.events else None
+        stripped = bool(stmts) and first is not None and first.kind == 'stmt' and isinstance(stmts[0], ast.Assign) and norm(stmts[0].targets[0]) == var \
+            and norm(strip_wrappers(stmts[0].value, ('strip',))[0]) == var and strip_wrappers(stmts[0].value, ('strip',))[1] == ['strip']
+        if not stripped:
+            ctx.violation(mod, 'split', 'part is stripped before the operator tests', f'for a part like {text!r} the row does not start with `{var} = {var}.strip()`: '
+                          f'"1.0, <2" would hand " <2" to the prefix tests', loop)
+            continue
+        ys = [s.value.value for s in stmts if isinstance(s, ast.Expr) and isinstance(s.value, ast.Yield)]
+        ops = [o for o in sorted(OPS, key=len, reverse=True) if text.startswith(o)]
+        if text == '*':
+            ctx.require(not ys, 'split: a bare * yields nothing', mod, 'split', node, f'a bare `*` part yields {[norm(y) for y in ys]}; Cargo: `*` matches everything (no constraint)', node)
+            continue
+        if len(ys) != 1 or not (isinstance(ys[0], ast.Tuple) and len(ys[0].elts) == 2):
+            ctx.violation(mod, 'split', node, f'for a part like {text!r} the row yields {[norm(y) for y in ys]}; exactly one (operator, version) pair is expected', node)
+            continue
+        e0, e1 = ys[0].elts
+        core, wraps = strip_wrappers(e1)
+        if ops:
+            op = ops[0]
+            k = len(op)
+            ok0 = _leading_len(e0, var) == k or (is_const(e0) and const_of(e0) == op)
+            ok1 = _tail_from(core, var) == k and bool(wraps)
+            ctx.require(ok0 and ok1, f'split: part like {text!r}: operator = first {k} character(s), version = the rest, left-stripped', mod, 'split', ys[0],
+                        f'for a part starting with {op!r} the row yields ({norm(e0)}, {norm(e1)}); expected the first {k} character(s) and {var}[{k}:].lstrip() '
+                        f'(two-character operators must win over their one-character prefixes)', node)
+        elif text.endswith('.*'):
+            ok = is_const(e0) and const_of(e0) == '~' and _head_upto(core, var) == 2
+            ctx.require(ok, f'split: wildcard part like {text!r}: tilde requirement on the text without ".*"', mod, 'split', ys[0],
+                        f'for a wildcard part the row yields ({norm(e0)}, {norm(e1)}); expected (\'~\', {var}[:-2])', node)
         else:
-            s, got, want, node = bad
-            ctx.violation(mod, 'split', node, f'split({s!r}) yields {got}; the Cargo reference ({family}) is {want}', node)
-    ctx.floor('split requirement samples', n, 50)
+            ok = is_const(e0) and const_of(e0) == '^' and norm(core) == var
+            ctx.require(ok, f'split: bare part like {text!r}: caret requirement (default)', mod, 'split', ys[0],
+                        f'for a bare version the row yields ({norm(e0)}, {norm(e1)}); expected (\'^\', {var})', node)
 
 
-class _SemModel:
-    """World of one requirement token: specified count, component values, pre-release flag."""
+# =====================================================================================================
+# R1b  cargo_parse: per-operator rows
+# =====================================================================================================
 
-    def __init__(self, tag: str, comps: T.Sequence[int], n: int, pre: bool, log: T.List[T.Any]):
-        self.tag, self.comps, self.n, self.pre = tag, list(comps), n, pre
-        v: T.List[T.Any] = list(comps) + ([-1, 'rc', 1] if pre else [0])
-        self.obj = Obj('SemVer', (), {'_v': v, 'specified_count': n, 'has_prerelease': pre}, {'next_ver': self.next_ver}, strict=True)
-        self.bumps: T.Dict[int, Obj] = {}
-        self.log = log
+class _SearchLoops(ast.NodeTransformer):
+    """Rewrite the search idiom  `for I in range(N): if VEC[I] != 0: break  else: I = D`  into the symbolic
+    assignment `I = FIRST_NONZERO(VEC, N, D)` so that the enclosing body tabulates without a loop."""
 
-    def next_ver(self, idx: T.Any) -> Obj:
-        if not isinstance(idx, int) or isinstance(idx, bool):
-            raise Undecided(f'cargo_parse: next_ver called with non-integer {idx!r}')
-        if not 0 <= idx <= 2:
-            # the real next_ver indexes a three-element list: outside 0..2 it raises / wraps around
-            self.log.append(('next_ver-out-of-range', self.tag, idx))
-        if idx not in self.bumps:
-            self.bumps[idx] = Obj('SemVer', (), {'_v': ['bump', self.tag, idx], 'specified_count': 3, 'has_prerelease': False,
-                                                  '%bound': ('bump', self.tag, idx)}, {}, strict=True)
-        return self.bumps[idx]
+    def __init__(self) -> None:
+        self.found = 0
+
+    def visit_For(self, node: ast.For) -> ast.AST:
+        self.generic_visit(node)
+        if not (isinstance(node.target, ast.Name) and isinstance(node.iter, ast.Call) and norm(node.iter.func) == 'range' and not node.iter.keywords):
+            return node
+        i = node.target.id
+        rargs = node.iter.args
+        if len(rargs) == 2 and isinstance(rargs[0], ast.Constant) and rargs[0].value == 0:
+            rargs = rargs[1:]
+        if not (len(rargs) == 1 and isinstance(rargs[0], ast.Constant) and isinstance(rargs[0].value, int)):
+            return node
+        n = rargs[0].value
+        if not (len(node.body) == 1 and isinstance(node.body[0], ast.If) and not node.body[0].orelse and len(node.body[0].body) == 1
+                and isinstance(node.body[0].body[0], ast.Break)):
+            return node
+        atom, pol = tables.canon(node.body[0].test, True)
+        if not (atom.kind == 'cmp' and atom.args[0] == 'eq' and atom.args[2] == '0' and pol is False):
+            return node
+        sub = expr_of(atom.args[1])
+        if not (isinstance(sub, ast.Subscript) and isinstance(sub.slice, ast.Name) and sub.slice.id == i):
+            return node
+        if node.orelse:
+            if not (len(node.orelse) == 1 and isinstance(node.orelse[0], ast.Assign) and norm(node.orelse[0].targets[0]) == i and isinstance(node.orelse[0].value, ast.Constant)
+                    and isinstance(node.orelse[0].value.value, int)):
+                return node
+            d = node.orelse[0].value.value
+        else:
+            d = n - 1
+        self.found += 1
+        new = ast.Assign(targets=[ast.Name(id=i, ctx=ast.Store())],
+                         value=ast.Call(func=ast.Name(id='FIRST_NONZERO', ctx=ast.Load()), args=[sub.value, ast.Constant(n), ast.Constant(d)], keywords=[]))
+        return ast.fix_missing_locations(ast.copy_location(new, node))
 
 
-def _ref_constraints(op: str, tag: str, comps: T.Sequence[int], n: int) -> T.List[T.Tuple[str, T.Any]]:
-    """A.17: op -> constraints; ('v', tag) is the version itself, ('bump', tag, k) its k-th component bumped."""
-    v = ('v', tag)
+class _Replace(ast.NodeTransformer):
+    def __init__(self, what: str, by: str):
+        self.what, self.by = what, by
+
+    def generic_visit(self, node: ast.AST) -> ast.AST:
+        if isinstance(node, ast.expr) and norm(node) == self.what:
+            return ast.Name(id=self.by, ctx=ast.Load())
+        return super().generic_visit(node)
+
+
+def _bump_denotation(e: ast.AST, n: int, pat: T.Tuple[int, ...]) -> T.Tuple[T.Any, ...]:
+    """Symbolic reading of a bump-index expression (V = the requirement's SemVer)."""
+    if isinstance(e, ast.Constant) and isinstance(e.value, int) and not isinstance(e.value, bool):
+        return ('const', e.value)
+    if isinstance(e, ast.BinOp) and isinstance(e.op, ast.Sub) and norm(e.left) == 'V.specified_count' and isinstance(e.right, ast.Constant) and isinstance(e.right.value, int):
+        return ('count-1',) if e.right.value == 1 else ('count-k', e.right.value)
+    if norm(e) == 'V.specified_count':
+        return ('count-k', 0)
+    if isinstance(e, ast.Call) and norm(e.func) == 'FIRST_NONZERO' and norm(e.args[0]) == 'V._v':
+        return ('first-nonzero', e.args[1].value, e.args[2].value)     # type: ignore[attr-defined]
+    if isinstance(e, ast.IfExp):
+        a, pol = tables.canon(e.test, True)
+        v = _req_atom(a, 'V', n, pat)
+        return _bump_denotation(e.body if v == pol else e.orelse, n, pat)
+    raise Undecided(f'cargo_parse: bump index expression {short(e)} is outside the shapes this rule reads')
+
+
+def _req_atom(a: Atom, sem: str, n: int, pat: T.Tuple[int, ...]) -> bool:
+    """Truth of an atom over the requirement's SemVer for the class (specified count n, zero pattern pat)."""
+    def term(t: str) -> T.Any:
+        if t == f'{sem}.specified_count':
+            return n
+        e = expr_of(t)
+        if isinstance(e, ast.Constant) and isinstance(e.value, int):
+            return e.value
+        if isinstance(e, ast.Subscript) and norm(e.value) == f'{sem}._v' and isinstance(e.slice, ast.Constant) and e.slice.value in (0, 1, 2):
+            return ('comp', e.slice.value)
+        raise Undecided(f'cargo_parse: atom operand {t} is outside the vocabulary (specified_count, _v[0..2], integer constants)')
+    if a.kind == 'cmp':
+        x, y = term(a.args[1]), term(a.args[2])
+        if isinstance(x, tuple) or isinstance(y, tuple):
+            comp, c = (x, y) if isinstance(x, tuple) else (y, x)
+            if a.args[0] == 'eq' and c == 0:
+                return pat[comp[1]] == 0
+            raise Undecided(f'cargo_parse: component test {a!r} is not a comparison with 0')
+        return x == y if a.args[0] == 'eq' else x < y
+    raise Undecided(f'cargo_parse: atom outside the vocabulary: {a!r}')
+
+
+def _ref_constraints(op: str, n: int, pat: T.Tuple[int, ...]) -> T.List[T.Tuple[str, T.Any]]:
+    """A.17: operator -> (comparator, bound); 'V' = the version itself, ('bump', k) = next_ver(k)."""
     if op == '<=':
-        return [('lt', ('bump', tag, n - 1))]
+        return [('lt', ('bump', n - 1))]
     if op == '~':
-        return [('ge', v), ('lt', ('bump', tag, 1 if n >= 2 else 0))]
+        return [('ge', 'V'), ('lt', ('bump', 1 if n >= 2 else 0))]
     if op == '^':
-        nz = [i for i in range(3) if comps[i] != 0]
-        return [('ge', v), ('lt', ('bump', tag, nz[0] if nz else 0))]
-    return [(OPNAME[op], v)]
+        nz = [i for i in range(3) if pat[i]]
+        return [('ge', 'V'), ('lt', ('bump', nz[0] if nz else 0))]
+    return [(OPNAME[op], 'V')]
 
 
-def _cargo_worlds() -> T.Iterator[T.List[T.Tuple[str, T.Tuple[int, ...], int, bool]]]:
-    """Requirement worlds: lists of (op, components, specified count, has pre-release)."""
-    shapes: T.List[T.Tuple[T.Tuple[int, ...], int]] = []
+def _req_classes() -> T.List[T.Tuple[int, T.Tuple[int, ...]]]:
+    out = []
     for n in (1, 2, 3):
         for bits in itertools.product((0, 1), repeat=n):
-            comps = tuple((5 + i) * b for i, b in enumerate(bits)) + (0,) * (3 - n)
-            shapes.append((comps, n))
-    for op in OPS:
-        for comps, n in shapes:
-            for pre in (False, True):
-                if pre and n < 3:
-                    continue    # a pre-release requirement always names all three components
-                yield [(op, comps, n, pre)]
-    full = ((5, 6, 7), 3)
-    for (o1, p1), (o2, p2) in itertools.product([('>=', False), ('>=', True), ('^', False), ('~', True)], [('<', False), ('<', True), ('!=', False), ('<=', False)]):
-        yield [(o1, full[0], 3, p1), (o2, (5, 7, 0), 2 if not p2 else 3, p2)]
-    yield [('>', (1, 0, 0), 1, False), ('<', (3, 0, 0), 1, False), ('!=', (2, 0, 0), 3, True)]
+            out.append((n, tuple(bits) + (0,) * (3 - n)))
+    return out
 
 
 def r1_cargo_parse(ctx: RuleCtx) -> None:
     mod = ctx.repo.module(VERSION)
     fn = mod.func('cargo_parse')
-    calls = [c for c in ast.walk(fn) if isinstance(c, ast.Call) and norm(c.func) == 'split']
-    ctx.floor('cargo_parse iterates over split()', len(calls), 1)
-    rows: T.Dict[str, int] = {}
-    bad: T.Dict[str, T.Tuple[ast.AST, str]] = {}
-    nworlds = 0
-    for world in _cargo_worlds():
-        nworlds += 1
-        log: T.List[T.Any] = []
-        toks = {f'V{i}': _SemModel(f'V{i}', comps, n, pre, log) for i, (op, comps, n, pre) in enumerate(world)}
-        lhs_pre = {'flag': False}
-        answers: T.Dict[int, bool] = {}
-        seq: T.List[T.Tuple[str, T.Any]] = []
-
-        def semver_ctor(text: T.Any) -> Obj:
-            if text in toks:
-                return toks[text].obj
-            if text == 'LHS':
-                return Obj('SemVer', (), {'_v': ['lhs'], 'specified_count': 3, 'has_prerelease': lhs_pre['flag'], '%bound': ('lhs',)}, {}, strict=True)
-            raise Undecided(f'cargo_parse: SemVer() called with {text!r}')
-
-        def bound_of(o: T.Any) -> T.Any:
-            if isinstance(o, Obj) and o.cls == 'SemVer':
-                if '%bound' in o.attrs:
-                    return o.attrs['%bound']
-                for t in toks.values():
-                    if t.obj is o:
-                        return ('v', t.tag)
-            raise Undecided(f'cargo_parse: comparison operand {o!r} is not a SemVer')
-
-        def mk_op(name: str) -> T.Callable[[T.Any, T.Any], bool]:
-            def f(a: T.Any, b: T.Any) -> bool:
-                seq.append((name, bound_of(a), bound_of(b)))     # type: ignore[arg-type]
-                return answers.get(len(seq) - 1, True)
-            f.__name__ = name
-            return f
-        env = {
-            'split': lambda req: [(op, f'V{i}') for i, (op, _c, _n, _p) in enumerate(world)],
-            'SemVer': ClassRef('SemVer', (), semver_ctor),
-            'operator': Namespace('operator', **{k: mk_op(k) for k in ('lt', 'le', 'gt', 'ge', 'eq', 'ne')}),
-        }
-        it = Interp(env, name='cargo_parse')
-        desc = ', '.join(f'{op}{".".join(str(c) for c in comps[:n])}{"-pre" if pre else ""}' for op, comps, n, pre in world)
-        try:
-            matcher = it.closure(fn)('REQ')
-        except Raised as r:
-            raise _undecided_on_raise(f'cargo_parse[{desc}]', r)
-        if not callable(matcher):
-            raise Undecided(f'cargo_parse[{desc}] returns {matcher!r}, not a matcher')
-        parse_trace = list(it.trace)
-
-        def run(pre: bool, ans: T.Dict[int, bool]) -> T.Tuple[T.Any, T.List[T.Tuple[str, T.Any]]]:
-            lhs_pre['flag'] = pre
-            answers.clear()
-            answers.update(ans)
-            seq.clear()
-            try:
-                res = matcher('LHS')
-            except Raised as r:
-                raise _undecided_on_raise(f'matcher of cargo_parse[{desc}]', r)
-            return res, list(seq)
-
-        want: T.List[T.Tuple[str, T.Any]] = []
-        for i, (op, comps, n, pre) in enumerate(world):
-            want.extend(_ref_constraints(op, f'V{i}', comps, n))
-        accept = any(pre for _o, _c, _n, pre in world)
-        key = ' '.join(op for op, _c, _n, _p in world)
-        rows[key] = rows.get(key, 0) + 1
-
-        def fail(node: T.Optional[ast.AST], msg: str) -> None:
-            node = node or fn
-            bad.setdefault(norm(node) + '|' + msg.split(':')[0], (node, f'requirement [{desc}]: {msg}'))
-
-        res, got = run(False, {})
-        for g in got:
-            if g[1] != ('lhs',):
-                fail(None, f'operands swapped: the matcher calls {g[0]}({g[1]}, {g[2]}); the candidate version must be the left operand')
-        gotc = sorted((g[0], g[2]) for g in got)
-        if log:
-            fail(last_call_stmt(parse_trace, 'next_ver'), f'bump index out of range: {log}')
-        if gotc != sorted(want):
-            node = last_call_stmt(parse_trace, 'append')
-            fail(node, f'constraints: the matcher tests {gotc}; the Cargo table requires {sorted(want)}')
-            continue
-        if res is not True:
-            fail(None, f'all constraints hold but the matcher returns {res!r}')
-        for i in range(len(got)):
-            res_i, _ = run(False, {i: False})
-            if res_i is not False:
-                fail(None, f'conjunction: constraint {got[i][0]} {got[i][2]} fails but the matcher returns {res_i!r}')
-        res_p, got_p = run(True, {})
-        if accept:
-            if res_p is not True or sorted((g[0], g[2]) for g in got_p) != sorted(want):
-                fail(None, f'pre-release gate: a constraint names a pre-release, so a pre-release candidate must be compared normally; got {res_p!r} after {len(got_p)} comparisons')
+    param = fn.args.args[0].arg
+    loops = [s for s in fn.body if isinstance(s, ast.For)]
+    if len(loops) != 1:
+        raise Undecided('cargo_parse: expected one top-level loop over split(requirement)')
+    loop = loops[0]
+    ok_iter = isinstance(loop.iter, ast.Call) and norm(loop.iter.func) == 'split' and [norm(a) for a in loop.iter.args] == [param] \
+        and isinstance(loop.target, ast.Tuple) and len(loop.target.elts) == 2 and all(isinstance(x, ast.Name) for x in loop.target.elts)
+    if not ok_iter:
+        raise Undecided(f'cargo_parse: the loop is not `for op, ver in split({param})`')
+    opvar, vervar = (x.id for x in loop.target.elts)     # type: ignore[attr-defined]
+    pre = fn.body[:fn.body.index(loop)]
+    post = fn.body[fn.body.index(loop) + 1:]
+    env0, _ = propagate([s for s in pre if eff(s)])
+    outs = [k for k, v in env0.items() if isinstance(v, ast.List) and not v.elts]
+    accs = [k for k, v in env0.items() if isinstance(v, ast.Constant) and v.value is False]
+    if len(outs) != 1 or len(accs) != 1:
+        raise Undecided(f'cargo_parse: expected one empty constraint list and one flag initialised to False before the loop, found {outs} / {accs}')
+    OUT, ACC = outs[0], accs[0]
+    ctx.ok(f'cargo_parse: constraint list `{OUT}` starts empty, pre-release flag `{ACC}` starts False')
+    rw = _SearchLoops()
+    body = [rw.visit(copy.deepcopy(s)) for s in loop.body]
+    tab = tables.extract(fn, body=body, effects=eff, inline=False, name='cargo_parse:loop')
+    semdef = f'SemVer({vervar})'
+    # classify atoms
+    op_atoms: T.Dict[Atom, str] = {}
+    other: T.List[Atom] = []
+    for a in tab.atoms():
+        if a.kind == 'cmp' and a.args[0] == 'eq' and a.args[1] == opvar and is_const(expr_of(a.args[2])):
+            op_atoms[a] = const_of(expr_of(a.args[2]))
         else:
-            if res_p is not False:
-                fail(None, f'pre-release gate: no constraint names a pre-release but a pre-release candidate is accepted ({res_p!r})')
-    # empty requirement: always true
-    for pre in (False, True):
-        it = Interp({'split': lambda req: [], 'SemVer': ClassRef('SemVer', (), lambda t: Obj('SemVer', (), {'has_prerelease': pre}, {}, strict=True)),
-                     'operator': Namespace('operator')}, name='cargo_parse')
-        try:
-            m = it.closure(fn)('')
-            res = m('LHS') if callable(m) else m
-        except Raised as r:
-            raise _undecided_on_raise('cargo_parse[empty]', r)
-        ctx.require(res is True, f'empty / * requirement accepts every version (pre-release candidate: {pre})', mod, 'cargo_parse', 'empty requirement',
-                    f'an empty requirement returns {res!r} for a {"pre-release" if pre else "release"} candidate; Cargo: always true')
-    for key, (node, msg) in bad.items():
-        ctx.violation(mod, 'cargo_parse', node, msg, node)
-    if not bad:
-        for key, cnt in rows.items():
-            ctx.ok(f'cargo_parse: requirement shape [{key}]: {cnt} worlds (specified components x zero pattern x pre-release) agree with the Cargo table, gate and conjunction')
-    ctx.floor('cargo_parse worlds', nworlds, 150)
+            other.append(a)
+    ctx.floor('cargo_parse: operators with an arm', len(set(op_atoms.values()) & set(OPS)), 8)
+    missing = sorted(set(OPS) - set(op_atoms.values()))
+    for o in missing:
+        ctx.violation(mod, 'cargo_parse', f'operator {o}', f'split() can yield the operator {o!r} but no arm of cargo_parse tests for it: the constraint would be dropped', loop)
+    semvar: T.Optional[str] = None
+    for st in loop.body:
+        if isinstance(st, ast.Assign) and norm(st.value) == semdef and isinstance(st.targets[0], ast.Name):
+            semvar = st.targets[0].id
+    if semvar is None:
+        raise Undecided(f'cargo_parse: `x = SemVer({vervar})` not found in the loop body')
+    for op in [o for o in OPS if o not in missing]:
+        bad: T.Optional[T.Tuple[ast.AST, str]] = None
+        nw = 0
+        for n, pat in _req_classes():
+            world: T.Dict[Atom, bool] = {a: (c == op) for a, c in op_atoms.items()}
+            rows = []
+            for r in tab.rows:
+                if any(world.get(a) != v for a, v in r.conds.items() if a in op_atoms):
+                    continue
+                if all(_req_atom(a, semvar, n, pat) == v for a, v in r.conds.items() if a not in op_atoms):
+                    rows.append(r)
+            if len(rows) != 1:
+                raise Undecided(f'cargo_parse: {len(rows)} rows fire for operator {op!r}, {n} specified component(s), zero pattern {pat}')
+            row = rows[0]
+            nw += 1
+            env, rest = propagate(stmts_of(row))
+            node = row.path.events[-1].node if row.path.events else loop
+            got: T.List[T.Tuple[str, T.Any]] = []
+            shape_bad = None
+            for st in rest:
+                c = st.value if isinstance(st, ast.Expr) else None
+                if not (isinstance(c, ast.Call) and isinstance(c.func, ast.Attribute) and c.func.attr == 'append' and norm(c.func.value) == OUT and len(c.args) == 1):
+                    continue
+                pair = c.args[0]
+                if not (isinstance(pair, ast.Tuple) and len(pair.elts) == 2 and (attr_chain(pair.elts[0]) or '').startswith('operator.')):
+                    shape_bad = f'appends {short(pair)}, not an (operator.<cmp>, bound) pair'
+                    continue
+                cmpname = attr_chain(pair.elts[0]).split('.')[1]     # type: ignore[union-attr]
+                b = _Replace(semdef, 'V').visit(copy.deepcopy(pair.elts[1]))
+                if norm(b) == 'V':
+                    got.append((cmpname, 'V'))
+                elif isinstance(b, ast.Call) and norm(b.func) == 'V.next_ver' and len(b.args) == 1:
+                    den = _bump_denotation(b.args[0], n, pat)
+                    if den == ('count-1',):
+                        den = ('const', 'specified_count - 1')
+                    elif den[0] == 'count-k':
+                        den = ('const', f'specified_count - {den[1]}' if den[1] else 'specified_count')     # never the reference's count - 1
+                    elif den[0] == 'first-nonzero':
+                        if den[1:] == (3, 0):
+                            nz = [i for i in range(3) if pat[i]]
+                            den = ('const', nz[0] if nz else 0)
+                        else:
+                            shape_bad = (f'the caret bound searches the first non-zero of {den[1]} component(s) with default index {den[2]}; '
+                                         f'Cargo: leftmost non-zero of major/minor/patch, all zero -> major')
+                            den = ('const', -1)
+                    got.append((cmpname, ('bump', den[1])))
+                else:
+                    shape_bad = f'bound {short(pair.elts[1])} is neither the version nor next_ver(index)'
+            want = _ref_constraints(op, n, pat)
+            if op == '<=' and got == [('lt', ('bump', 'specified_count - 1'))]:
+                want = list(got)     # the reference index *is* the expression `specified_count - 1` (a constant n - 1 per class is accepted as well)
+            desc = f'{op}{".".join("x" if b else "0" for b in pat[:n])}'
+            if shape_bad and bad is None:
+                bad = (node, f'requirement like `{desc}`: {shape_bad}')
+            elif sorted(got, key=repr) != sorted(want, key=repr) and bad is None:
+                bad = (node, f'requirement like `{desc}` ({n} specified component(s)): the row appends {got}; the Cargo table (A.17) requires {want} '
+                             f'[V = the version, (bump, k) = next_ver(k)]')
+            # the pre-release flag is sticky: flag = flag or V.has_prerelease on every row
+            acc = env.get(ACC)
+            acc_s = norm(_Replace(semdef, 'V').visit(copy.deepcopy(acc))) if acc is not None else None
+            if acc_s not in (f'{ACC} or V.has_prerelease', f'V.has_prerelease or {ACC}') and bad is None:
+                bad = (node, f'requirement like `{desc}`: the pre-release flag becomes `{acc_s}`; expected `{ACC} or V.has_prerelease` '
+                             f'(a pre-release named by any constraint enables pre-release matching)')
+        if bad is None:
+            ctx.ok(f'cargo_parse: operator {op}: {nw} classes (specified components x zero pattern) append exactly the constraints of A.17; flag sticky')
+        else:
+            ctx.violation(mod, 'cargo_parse', f'operator {op} :: {norm(bad[0])}', bad[1], bad[0])
+    _matcher(ctx, mod, fn, post, OUT, ACC)
+
+
+def _matcher(ctx: RuleCtx, mod: Module, fn: ast.FunctionDef, post: T.List[ast.stmt], OUT: str, ACC: str) -> None:
+    """The returned predicate: empty -> always true; else gate + conjunction over the appended pairs."""
+    defs = {s.name: s for s in post if isinstance(s, ast.FunctionDef)}
+    tab = tables.extract(fn, body=[s for s in post if not isinstance(s, ast.FunctionDef)], name='cargo_parse:result')
+    empty_atom = Atom('truth', (OUT,))
+    if [a for a in tab.atoms() if a != empty_atom]:
+        raise Undecided(f'cargo_parse: result selection tests {tab.atoms()}')
+    cmp_fn: T.Optional[ast.FunctionDef] = None
+    for r in tab.rows:
+        if r.outcome[0] != 'return':
+            raise Undecided(f'cargo_parse: result row {r!r}')
+        e = expr_of(r.outcome[1])
+        if r.conds.get(empty_atom) is False:
+            ok = isinstance(e, ast.Lambda) and isinstance(e.body, ast.Constant) and e.body.value is True and len(e.args.args) == 1
+            ctx.require(ok, 'cargo_parse: no constraint (empty or *) -> a predicate that is always True', mod, 'cargo_parse', e,
+                        f'with no constraint the result is `{short(e)}`; Cargo: an empty / `*` requirement matches every version', r.path.events[-1].node)
+        else:
+            if not (isinstance(e, ast.Name) and e.id in defs):
+                raise Undecided(f'cargo_parse: with constraints the result is {short(e)}, not a nested function')
+            cmp_fn = defs[e.id]
+    if cmp_fn is None:
+        raise Undecided('cargo_parse: no matcher returned')
+    qn = f'cargo_parse.{cmp_fn.name}'
+    t2 = tables.extract(cmp_fn, effects=eff, inline=False, bool_returns=True, name=qn)
+    arg = cmp_fn.args.args[0].arg
+    lhs = [st.targets[0].id for st in walk_no_nested(cmp_fn) if isinstance(st, ast.Assign) and isinstance(st.targets[0], ast.Name)
+           and isinstance(st.value, ast.Call) and norm(st.value.func) == 'SemVer' and [norm(a) for a in st.value.args] == [arg]]
+    if len(lhs) != 1:
+        raise Undecided(f'{qn}: `x = SemVer({arg})` not found')
+    L = lhs[0]
+    roles: T.Dict[Atom, str] = {}
+    for a in t2.atoms():
+        if a == Atom('truth', (f'{L}.has_prerelease',)):
+            roles[a] = 'pre'
+        elif a == Atom('truth', (ACC,)):
+            roles[a] = 'acc'
+        elif a.kind == 'truth':
+            e = expr_of(a.args[0])
+            comp = None
+            if isinstance(e, ast.Call) and norm(e.func) == 'all' and len(e.args) == 1 and isinstance(e.args[0], (ast.ListComp, ast.GeneratorExp)) and len(e.args[0].generators) == 1:
+                comp = e.args[0].generators[0]
+                call = e.args[0].elt
+            else:
+                fl = [s for s in cmp_fn.body if isinstance(s, ast.For)]
+                if len(fl) == 1:
+                    comp = fl[0]
+                call = e
+            tgt = comp.target if comp is not None else None
+            if not (comp is not None and norm(comp.iter) == OUT and isinstance(tgt, ast.Tuple) and len(tgt.elts) == 2 and isinstance(call, ast.Call) and len(call.args) == 2):
+                raise Undecided(f'{qn}: atom {a!r} is not a comparison of the candidate with an appended pair of `{OUT}`')
+            f, b = norm(tgt.elts[0]), norm(tgt.elts[1])
+            if norm(call.func) == f and [norm(x) for x in call.args] == [L, b]:
+                roles[a] = 'call'
+            elif norm(call.func) == f and [norm(x) for x in call.args] == [b, L]:
+                ctx.violation(mod, qn, call, f'the matcher evaluates `{short(call)}`: operands swapped - the pairs are (comparator, bound) and the candidate version '
+                              f'must be the left operand (`>= 1.2` would accept exactly the versions <= 1.2)', cmp_fn)
+                return
+            else:
+                raise Undecided(f'{qn}: atom {a!r}')
+        else:
+            raise Undecided(f'{qn}: atom {a!r}')
+    bad = None
+    nrows = 0
+    for r in t2.rows:
+        v = {roles[a]: val for a, val in r.conds.items()}
+        if r.outcome[0] != 'return' or r.outcome[1] not in ('True', 'False'):
+            raise Undecided(f'{qn}: row {r!r}')
+        gotv = r.outcome[1] == 'True'
+        # worlds compatible with the row; the reference must agree on all of them
+        for pre, acc in itertools.product((True, False), repeat=2):
+            if v.get('pre', pre) != pre or v.get('acc', acc) != acc:
+                continue
+            want = False if (pre and not acc) else v.get('call', True)
+            nrows += 1
+            if gotv != want and bad is None:
+                bad = (r, f'candidate pre-release={pre}, a constraint names a pre-release={acc}, comparison result={v.get("call", "no constraint left")}: '
+                          f'the matcher returns {gotv}, expected {want}')
+    if 'call' not in roles.values():
+        bad = bad or (t2.rows[0], 'the matcher never compares the candidate with the appended pairs')
+    if bad is None:
+        ctx.ok(f'{qn}: {len(t2.rows)} rows: pre-release candidates need a pre-release constraint (gate), every pair must hold (conjunction), candidate is the left operand')
+    else:
+        node = bad[0].path.events[-1].node if bad[0].path.events else cmp_fn
+        ctx.violation(mod, qn, f'matcher :: {norm(node)}', bad[1] + f' (row `{bad[0]!r}`)', node)
+
+
+# =====================================================================================================
+# R1c  next_ver / list constructor / has_prerelease (expression shapes)
+# =====================================================================================================
+
+def _first_three(e: ast.AST) -> T.Optional[str]:
+    """'copy3' when e is a fresh list of the first three components of self._v; 'alias' / 'copyall' for the
+    two recognisable wrong shapes; None otherwise."""
+    inner = e.args[0] if isinstance(e, ast.Call) and norm(e.func) == 'list' and len(e.args) == 1 else e
+    if isinstance(inner, ast.Subscript) and norm(inner.value) == 'self._v' and isinstance(inner.slice, ast.Slice) and inner.slice.step is None:
+        lo, up = inner.slice.lower, inner.slice.upper
+        if (lo is None or (isinstance(lo, ast.Constant) and lo.value == 0)) and isinstance(up, ast.Constant):
+            return 'copy3' if up.value == 3 else f'copy{up.value}'
+        if lo is None and up is None:
+            return 'copyall'
+    if norm(inner) == 'self._v':
+        return 'copyall' if inner is not e else 'alias'
+    return None
 
 
 def r1_next_ver(ctx: RuleCtx) -> None:
     mod = ctx.repo.module(VERSION)
     fn = mod.func('SemVer.next_ver')
-    init = mod.func('SemVer.__init__')
-    vecs = [[5, 6, 7, 0], [5, 6, 7, -1, 'rc', 1], [0, 0, 0, 0], [0, 9, 0, -1, 'a']]
-    for idx in (0, 1, 2):
-        bad = None
-        for vec in vecs:
-            built: T.List[T.Any] = []
-
-            def ctor(arg: T.Any = None) -> Obj:
-                built.append(arg)
-                return Obj('SemVer', (), {'%arg': arg})
-            it = Interp({'SemVer': ClassRef('SemVer', (), ctor)}, name='SemVer.next_ver')
-            me = Obj('SemVer', (), {'_v': list(vec), 'specified_count': 3}, strict=True)
-            try:
-                res = it.closure(fn)(me, idx)
-            except Raised as r:
-                raise _undecided_on_raise(f'next_ver({vec}, {idx})', r)
-            want = vec[:idx] + [vec[idx] + 1] + [0] * (2 - idx)
-            arg = res.attrs.get('%arg') if isinstance(res, Obj) else None
-            if arg != want or me.attrs['_v'] != vec:
-                bad = (vec, arg, want, me.attrs['_v'])
-                break
-            # the list constructor pads slot 3 with 0 (release) and counts three specified components
-            it2 = Interp({'_SEMVER_TOK_RE': Obj('re.Pattern', (), {}, {}, strict=True)}, name='SemVer.__init__')
-            me2 = Obj('SemVer', (), {})
-            try:
-                it2.closure(init)(me2, list(arg))
-            except Raised as r:
-                raise _undecided_on_raise(f'SemVer({arg})', r)
-            v2 = me2.attrs.get('_v')
-            ok = v2 == want + [0] and me2.attrs.get('specified_count') == 3
-            if not ok:
-                ctx.violation(mod, 'SemVer.__init__', last_call_stmt(it2.trace, 'append') or init,
-                              f'SemVer({arg}) stores _v={v2}, specified_count={me2.attrs.get("specified_count")}; expected {want + [0]} (slot 3 = 0: release) and 3')
-                return
-        if bad is None:
-            ctx.ok(f'next_ver({idx}): component {idx} + 1, lower components zeroed, pre-release dropped, receiver untouched ({len(vecs)} vectors); list constructor pads the release slot')
-        else:
-            vec, arg, want, after = bad
-            node = [st for st in it.trace if isinstance(st, ast.Assign) and isinstance(st.targets[0], ast.Subscript)]
-            ctx.violation(mod, 'SemVer.next_ver', node[-1] if node else fn,
-                          f'next_ver({idx}) on {vec} builds SemVer({arg}) (receiver afterwards {after}); expected SemVer({want}) and an unchanged receiver')
-    # has_prerelease reads slot 3
+    idx = fn.args.args[1].arg
+    rets = [s for s in walk_no_nested(fn) if isinstance(s, ast.Return)]
+    if len(rets) != 1 or not (isinstance(rets[0].value, ast.Call) and norm(rets[0].value.func) == 'SemVer' and len(rets[0].value.args) == 1
+                               and isinstance(rets[0].value.args[0], ast.Name)):
+        raise Undecided('next_ver: expected a single `return SemVer(<local list>)`')
+    V = rets[0].value.args[0].id
+    defs = [s for s in walk_no_nested(fn) if isinstance(s, ast.Assign) and norm(s.targets[0]) == V]
+    if len(defs) != 1:
+        raise Undecided(f'next_ver: {len(defs)} definitions of {V}')
+    kind = _first_three(defs[0].value)
+    if kind is None:
+        raise Undecided(f'next_ver: {V} = {short(defs[0].value)} is not a copy of self._v components')
+    ctx.require(kind == 'copy3', f'next_ver: works on a fresh copy of the three release components ({short(defs[0].value)})', mod, 'SemVer.next_ver', defs[0],
+                {'alias': f'{V} aliases self._v: the bump mutates the receiver and keeps the pre-release',
+                 'copyall': f'{V} copies all of self._v: the pre-release identifiers are kept in the bumped version'}.get(kind, f'{V} holds {kind}, not the three release components'), defs[0])
+    # straight-line part: copy propagation gives  V[idx] = V[idx] + 1
+    tab = tables.extract(fn, effects=eff, inline=False, name='SemVer.next_ver')
+    bumps = set()
+    for r in tab.rows:
+        env, rest = propagate(stmts_of(r), opaque=[V])
+        for st in rest:
+            if isinstance(st, ast.Assign) and isinstance(st.targets[0], ast.Subscript) and norm(st.targets[0]) == f'{V}[ARG1]':
+                bumps.add(norm(st.value).replace('ARG1', idx))
+    cell = f'{V}[{idx}]'
+    ok = bumps and bumps <= {f'{cell} + 1', f'1 + {cell}'}
+    ctx.require(bool(ok), f'next_ver: {cell} = {cell} + 1', mod, 'SemVer.next_ver', f'bump of {cell}', f'the component at the index is set to {sorted(bumps)}; expected {cell} + 1', fn)
+    # zeroing of the lower components: for i in range(idx + 1, 3): V[i] = 0
+    loops = [s for s in fn.body if isinstance(s, ast.For)]
+    zero = None
+    for lp in loops:
+        if isinstance(lp.target, ast.Name) and isinstance(lp.iter, ast.Call) and norm(lp.iter.func) == 'range' and len(lp.body) == 1 and not lp.orelse \
+                and isinstance(lp.body[0], ast.Assign) and norm(lp.body[0].targets[0]) == f'{V}[{lp.target.id}]':
+            zero = lp
+    if zero is None:
+        ctx.violation(mod, 'SemVer.next_ver', 'lower components are zeroed', f'no loop `for i in range({idx} + 1, 3): {V}[i] = 0` found: bumping minor must reset patch (1.2.3 -> 1.3.0)', fn)
+    else:
+        rargs = [norm(a) for a in zero.iter.args]     # type: ignore[attr-defined]
+        ok = rargs in ([f'{idx} + 1', '3'], [f'1 + {idx}', '3']) and norm(zero.body[0].value) == '0'     # type: ignore[attr-defined]
+        ctx.require(ok, f'next_ver: components {idx}+1..2 are set to 0', mod, 'SemVer.next_ver', zero,
+                    f'the zeroing loop is `for {zero.target.id} in range({", ".join(rargs)}): {norm(zero.body[0])}`; expected range({idx} + 1, 3) and the value 0', zero)     # type: ignore[attr-defined]
+    # has_prerelease: slot 3 == -1
     hp = mod.func('SemVer.has_prerelease')
-    for vec, want_b in (([1, 2, 3, 0], False), ([1, 2, 3, -1, 'a'], True), ([1, 0, -1, 0], False), ([0, 0, 0, -1, 0], True)):
-        it = Interp({}, name='SemVer.has_prerelease')
-        try:
-            res = it.closure(hp)(Obj('SemVer', (), {'_v': vec}, strict=True))
-        except Raised as r:
-            raise _undecided_on_raise(f'has_prerelease({vec})', r)
-        ctx.require(res is want_b, f'has_prerelease of {vec} is {want_b}', mod, 'SemVer.has_prerelease', hp,
-                    f'has_prerelease of {vec} is {res!r}; slot 3 == -1 marks a pre-release, expected {want_b}')
+    hrets = [s for s in walk_no_nested(hp) if isinstance(s, ast.Return)]
+    if len(hrets) != 1 or hrets[0].value is None:
+        raise Undecided('has_prerelease: expected one return')
+    a, pol = tables.canon(hrets[0].value, True)
+    ok = a.kind == 'cmp' and a.args[0] == 'eq' and pol is True and {a.args[1], a.args[2]} == {'self._v[3]', '-1'}
+    ctx.require(ok, 'has_prerelease: slot 3 == -1', mod, 'SemVer.has_prerelease', hrets[0], f'has_prerelease returns `{norm(hrets[0].value)}`; the marker of a pre-release is _v[3] == -1', hrets[0])
+    # list constructor + final padding: _v = list(in_) padded with 0 up to four slots (slot 3 = 0: release); count = min(3, len)
+    init = mod.func('SemVer.__init__')
+    inp = init.args.args[1].arg
+    top = [s for s in init.body if isinstance(s, ast.If)]
+    if len(top) != 1:
+        raise Undecided('SemVer.__init__: expected one top-level `if isinstance(<input>, str)`')
+    a, pol = tables.canon(top[0].test, True)
+    if not (a == Atom('isinstance', (inp, ('str',))) and pol):
+        raise Undecided(f'SemVer.__init__: top-level test is {a!r}')
+    tail = init.body[init.body.index(top[0]) + 1:]
+    tab = tables.extract(init, body=top[0].orelse + tail, effects=eff, inline=False, name='SemVer.__init__:list')
+    nrow = 0
+    for r in tab.rows:
+        env, rest = propagate(stmts_of(r))
+        stores = {norm(st.targets[0]): norm(st.value) for st in rest if isinstance(st, ast.Assign) and isinstance(st.targets[0], ast.Attribute)}
+        pads = [a for a, v in r.conds.items() if a.kind == 'cmp' and a.args[0] == 'lt' and v is False and a.args[2] == '4' and a.args[1].startswith('len(')]
+        if not pads:
+            continue
+        nrow += 1
+        vecname = pads[0].args[1][4:-1]
+        ok = stores.get('self._v') in ('list(ARG1)', vecname) and stores.get('self.specified_count') in ('min(3, len(ARG1))', 'min(len(ARG1), 3)')
+        if stores.get('self._v') == vecname:
+            vd = [s for s in ast.walk(ast.Module(body=top[0].orelse, type_ignores=[])) if isinstance(s, ast.Assign) and norm(s.targets[0]) == vecname]
+            ok = ok and len(vd) == 1 and norm(vd[0].value) == f'list({inp})'
+        ctx.require(ok, 'SemVer(list): _v = list(input), specified_count = min(3, len(input))', mod, 'SemVer.__init__', 'list constructor',
+                    f'the list constructor stores {stores}', top[0])
+    ctx.floor('SemVer(list) rows', nrow, 1)
+    pads4 = [s for s in tail if isinstance(s, ast.While)]
+    okp = False
+    for w in pads4:
+        a, pol = tables.canon(w.test, True)
+        if a.kind == 'cmp' and a.args[0] == 'lt' and pol and a.args[2] == '4' and a.args[1].startswith('len('):
+            vec = a.args[1][4:-1]
+            okp = len(w.body) == 1 and norm(w.body[0]) == f'{vec}.append(0)'
+            ctx.require(okp, 'SemVer: the vector is padded with 0 up to four slots (slot 3 = 0 marks a release)', mod, 'SemVer.__init__', w,
+                        f'the padding loop is `while {norm(w.test)}: {norm(w.body[0])}`; slot 3 of a release must be 0', w)
+    if not pads4:
+        raise Undecided('SemVer.__init__: final padding loop `while len(vec) < 4` not found')
 
 
 # =====================================================================================================
@@ -414,15 +759,14 @@ def split_alternatives(pattern: str) -> T.List[str]:
 
 
 def _tok_language(ctx: RuleCtx, mod: Module) -> T.Dict[str, T.Any]:
-    """Regex-language facts of the tokenizer: which alternative feeds which group, witness tokens."""
+    """Regex-language facts of the tokenizer: which alternative feeds which group."""
     r = fold_expr(ctx.repo, mod, mod.assign_value('_SEMVER_TOK_RE'))
     if not isinstance(r, Regex) or r.flags:
         raise Undecided(f'_SEMVER_TOK_RE does not fold to a flag-less regex: {r!r}')
     alts = split_alternatives(r.pattern)
     if len(alts) != len(rx.branch_alternatives(r.pattern)) or len(alts) != 3:
         raise Undecided(f'_SEMVER_TOK_RE: expected three top-level alternatives (digits | identifier | build), got {alts}')
-    import re as _re
-    for i, a in enumerate(alts):
+    for a in alts:
         try:
             c = _re.compile(a)
         except _re.error as e:
@@ -430,162 +774,174 @@ def _tok_language(ctx: RuleCtx, mod: Module) -> T.Dict[str, T.Any]:
         if c.groups != 1 or not (a.startswith('(') and a.endswith(')')):
             raise Undecided(f'_SEMVER_TOK_RE alternative {a!r} is not one capturing group')
     digits, ident, build = alts
-    facts: T.Dict[str, T.Any] = {'pattern': r.pattern, 'alts': alts}
     ANY = r'[\s\S]*'
-    # group 1: only digits, never empty
     w = rx.intersects(digits, ANY + r'[^0-9]' + ANY)
-    ctx.require(w is None and not rx.full_matches(digits, '') and rx.full_matches(digits, '10'), 'digit branch: language is [0-9]+', mod, '<module>', '_SEMVER_TOK_RE digit branch',
-                f'the first alternative {digits!r} also matches {w!r}: int(group(1)) is not total / the branch is not the numeric-identifier branch')
-    # group 2 disjoint from group 1 (dispatch on m.group(n) truthiness is then order-independent)
+    ctx.require(w is None and not rx.full_matches(digits, '') and rx.full_matches(digits, '10'), 'digit branch: language is [0-9]+ (int(group(1)) is total)', mod, '<module>',
+                '_SEMVER_TOK_RE digit branch', f'the first alternative {digits!r} also matches {w!r}: int(group(1)) is not total / the branch is not the numeric-identifier branch')
     w = rx.intersects(digits, ident)
     ctx.require(w is None, 'digit and identifier branches are disjoint', mod, '<module>', '_SEMVER_TOK_RE branches', f'{w!r} is matched by both the digit and the identifier alternative')
-    # group 3 starts with + and swallows the rest
     w = rx.intersects(build, r'[^+]' + ANY)
     w2 = rx.intersects(build, r'\+[0-9A-Za-z.-]+')
     ctx.require(w is None and w2 is not None and not rx.full_matches(build, ''), 'build branch: + followed by the rest of the text', mod, '<module>', '_SEMVER_TOK_RE build branch',
                 f'the third alternative {build!r} matches {w!r} / does not cover "+meta.1"')
-    # neither the digit nor the identifier branch may run into build metadata or across a dot
     for ch in '+.':
         ctx.require(not rx.matches_char(digits, ch) and not rx.matches_char(ident, ch), f'digit/identifier tokens cannot contain {ch!r}', mod, '<module>',
                     f'_SEMVER_TOK_RE token containing {ch}', f'a digit or identifier token can contain {ch!r}: identifiers / build metadata are no longer separated')
-    # witnesses for the transition table
-    facts['plain'] = rx.intersects(ident, r'[A-Za-z][0-9A-Za-z-]*')          # identifier inside the pre-release section
-    facts['dash_alpha'] = rx.intersects(ident, r'-[A-Za-z][0-9A-Za-z]*')     # '-rc': section marker + identifier
-    facts['dash_digits'] = rx.intersects(ident, r'-[0-9]+')                   # '-2': section marker + numeric identifier
-    facts['dash_digits2'] = rx.intersects(ident, r'-[0-9][0-9]+')
-    facts['dash_mixed'] = rx.intersects(ident, r'-[0-9]+[A-Za-z][0-9A-Za-z]*')  # '-0a': alphanumeric identifier starting with a digit
-    facts['dash'] = rx.intersects(ident, r'-')
-    facts['digits_in_ident'] = rx.intersects(ident, r'[0-9]+')
-    ctx.note(f'tokenizer language: alternatives {alts}; witnesses ' + ', '.join(f'{k}={facts[k]!r}' for k in ('plain', 'dash_alpha', 'dash_digits', 'dash_mixed', 'dash', 'digits_in_ident')))
-    return facts
+    ctx.note(f'tokenizer language: alternatives {alts}')
+    return {'pattern': r.pattern, 'digits': digits, 'ident': ident, 'build': build}
 
 
-def _ref_tokens(tokens: T.List[T.Tuple[int, str]]) -> T.Optional[T.Tuple[T.List[T.Any], int]]:
-    """Reference SemVer reading of a token sequence (group number, text); None = outside the grammar (don't care)."""
-    vec: T.List[T.Any] = []
-    count = 0
-    pre = False
-
-    def ident(text: str) -> T.Any:
-        return int(text) if text.isdigit() else text
-    for g, text in tokens:
-        if g == 3:
-            break
-        if g == 1:
-            if pre:
-                vec.append(int(text))
-            elif count < 3:
-                vec.append(int(text))
-                count += 1
-            else:
-                return None
-        else:
-            if not pre:
-                if not text.startswith('-') or text == '-':
-                    return None
-                while len(vec) < 3:
-                    vec.append(0)
-                vec.append(-1)
-                pre = True
-                vec.append(ident(text[1:]))
-            else:
-                vec.append(ident(text))
-    if count == 0:
-        return None
-    while len(vec) < 3:
-        vec.append(0)
-    if not pre:
-        vec.append(0)
-    return vec, count
+def _guarded_int(e: ast.AST, core: str) -> bool:
+    """`int(X) if X.isdigit() else X` (isdecimal / isnumeric accepted) for X == core."""
+    if not isinstance(e, ast.IfExp):
+        return False
+    a, pol = tables.canon(e.test, True)
+    yes, no = (e.body, e.orelse) if pol else (e.orelse, e.body)
+    return a.kind == 'truth' and a.args[0] in (f'{core}.isdigit()', f'{core}.isdecimal()') and norm(yes) == f'int({core})' and norm(no) == core
 
 
 def r2_tokens(ctx: RuleCtx) -> None:
     mod = ctx.repo.module(VERSION)
     init = mod.func('SemVer.__init__')
     facts = _tok_language(ctx, mod)
-    if facts['dash_alpha'] is None or facts['plain'] is None:
-        raise Undecided('the identifier alternative no longer admits "-rc" / "rc": the section-marker idiom of SemVer.__init__ is not the one this rule understands')
-    D = [(1, '1'), (1, '2'), (1, '3')]
-    H = (2, facts['dash_alpha'])
-    P = (2, facts['plain'])
-    B = (3, '+b.7')
-    seqs: T.Dict[str, T.List[T.List[T.Tuple[int, str]]]] = {
-        'release (missing components are 0, slot 3 = 0)': [D[:1], D[:2], D[:3], [(1, '0'), (1, '0'), (1, '10')]],
-        'build metadata stops tokenisation': [D + [B], D + [B, (1, '9')], D[:2] + [B, H], D + [H, B, (1, '9'), P]],
-        'pre-release (slot 3 = -1, identifiers follow)': [D + [H], D + [H, (1, '4')], D + [H, P, (1, '11')], D[:1] + [H], D[:2] + [H, (1, '0')], D + [H, (2, facts['dash_alpha'])]],
-    }
-    numeric = [w for w in (facts['dash_digits'], facts['dash_digits2']) if w]
-    if numeric:
-        seqs['numeric identifier right after the section marker is an int'] = [D + [(2, w)] for w in numeric] + [D + [(2, numeric[0]), (1, '5')]]
-    if facts['dash_mixed']:
-        seqs['alphanumeric identifier starting with a digit stays a str'] = [D + [(2, facts['dash_mixed'])]]
-    if facts['digits_in_ident']:
-        seqs['all-digit identifier inside the pre-release section is an int'] = [D + [H, (2, facts['digits_in_ident'])]]
-    n = sum(1 for lst in seqs.values() for toks in lst if _ref_tokens(toks) is not None)
-    for family, lst in seqs.items():
-        bad = None
-        for toks in lst:
-            want = _ref_tokens(toks)
-            if want is None:
-                continue
+    loops = [s for s in ast.walk(init) if isinstance(s, ast.For) and isinstance(s.iter, ast.Call) and isinstance(s.iter.func, ast.Attribute) and s.iter.func.attr == 'finditer']
+    if len(loops) != 1 or norm(loops[0].iter.func.value) != '_SEMVER_TOK_RE' or not isinstance(loops[0].target, ast.Name):     # type: ignore[attr-defined]
+        raise Undecided('SemVer.__init__: expected one loop `for m in _SEMVER_TOK_RE.finditer(<input>)`')
+    loop = loops[0]
+    m = loop.target.id     # type: ignore[attr-defined]
+    inp = init.args.args[1].arg
+    ctx.require([norm(a) for a in loop.iter.args] == [inp], 'the tokenizer runs over the whole input text', mod, 'SemVer.__init__', loop.iter,     # type: ignore[attr-defined]
+                f'finditer is applied to {[norm(a) for a in loop.iter.args]}, not to the input')     # type: ignore[attr-defined]
+    stores = [s for s in walk_no_nested(init) if isinstance(s, ast.Assign) and norm(s.targets[0]) == 'self._v']
+    if len(stores) != 1 or not isinstance(stores[0].value, ast.Name):
+        raise Undecided('SemVer.__init__: `self._v = <vector>` not found')
+    vec = stores[0].value.id
+    tab = tables.extract(init, body=loop.body, effects=eff, inline=False, name='SemVer.__init__:token')
+    G = {i: Atom('truth', (f'{m}.group({i})',)) for i in (1, 2, 3)}
+    counts = [a for a in tab.atoms() if a.kind == 'cmp' and a.args[0] == 'lt' and a.args[2] == '3' and not a.args[1].startswith('len(')]
+    pads = [a for a in tab.atoms() if a.kind == 'cmp' and a.args[0] == 'lt' and a.args[2] == '3' and a.args[1] == f'len({vec})']
+    if len(counts) != 1:
+        raise Undecided(f'SemVer.__init__: expected one `<count> < 3` atom, found {counts}')
+    count = counts[0].args[1]
+    # the flag that is set together with the -1 marker
+    flags = {norm(s.targets[0]) for s in ast.walk(loop) if isinstance(s, ast.Assign) and isinstance(s.value, ast.Constant) and s.value.value is True} & \
+        {norm(s.targets[0]) for s in ast.walk(init) if isinstance(s, ast.Assign) and isinstance(s.value, ast.Constant) and s.value.value is False}
+    if len(flags) != 1:
+        raise Undecided(f'SemVer.__init__: the pre-release state flag is not identifiable (candidates {sorted(flags)})')
+    pre = flags.pop()
+    PRE = Atom('truth', (pre,))
 
-            def mk(g: int, text: str) -> Obj:
-                def group(i: T.Any = 0) -> T.Any:
-                    if i == 0:
-                        return text
-                    if i in (1, 2, 3):
-                        return text if i == g else None
-                    raise Undecided(f'SemVer.__init__: m.group({i!r})')
-                return Obj('re.Match', (), {}, {'group': group}, strict=True)
-            pat = Obj('re.Pattern', (), {}, {'finditer': lambda s, toks=toks: [mk(g, t) for g, t in toks]}, strict=True)   # type: ignore[misc]
-            it = Interp({'_SEMVER_TOK_RE': pat}, name='SemVer.__init__')
-            me = Obj('SemVer', (), {})
-            try:
-                it.closure(init)(me, 'TEXT')
-            except Raised as r:
-                raise _undecided_on_raise(f'SemVer.__init__ on tokens {toks}', r)
-            got = (me.attrs.get('_v'), me.attrs.get('specified_count'))
-            if got[0] != want[0] or [type(x) for x in got[0]] != [type(x) for x in want[0]] or got[1] != want[1]:
-                bad = (toks, got, want, last_call_stmt(it.trace, 'append') or init)
-                break
-        if bad is None:
-            ctx.ok(f'SemVer tokenizer: {family}: {len(lst)} token sequences read as SemVer 2.0.0 prescribes')
+    def appended(r: tables.Row) -> T.List[ast.AST]:
+        _env, rest = propagate(stmts_of(r))
+        return [st.value.args[0] for st in rest if isinstance(st, ast.Expr) and isinstance(st.value, ast.Call) and norm(st.value.func) == f'{vec}.append' and len(st.value.args) == 1]
+
+    def node_of(r: tables.Row, payload: T.Optional[str] = None) -> ast.AST:
+        for ev in reversed(r.path.events):
+            if ev.kind == 'stmt' and isinstance(ev.node, ast.Expr) and isinstance(ev.node.value, ast.Call) and norm(ev.node.value.func) == f'{vec}.append':
+                return ev.node
+        return r.path.events[-1].node if r.path.events else loop
+    n_rows = {'digit': 0, 'ident': 0, 'build': 0}
+    for r in tab.rows:
+        c = r.conds
+        node = node_of(r)
+        if c.get(G[1]) is True:
+            # ---- numeric token
+            n_rows['digit'] += 1
+            app = [norm(x) for x in appended(r)]
+            incs = [s for s in stmts_of(r) if isinstance(s, ast.AugAssign) and norm(s.target) == count]
+            if c.get(PRE) is True:
+                ctx.require(app == [f'int({m}.group(1))'] and not incs, 'digit token inside the pre-release section: appended as int, not counted as a release component', mod,
+                            'SemVer.__init__', f'digit token, pre-release :: {norm(node)}', f'row `{r!r}` appends {app} and changes the count {len(incs)} time(s); expected [int({m}.group(1))] and no count change', node)
+            elif c.get(PRE) is False and c.get(counts[0]) is True:
+                ok = app == [f'int({m}.group(1))'] and len(incs) == 1 and isinstance(incs[0].op, ast.Add) and norm(incs[0].value) == '1'
+                ctx.require(ok, 'digit token among the first three components: appended as int and counted', mod, 'SemVer.__init__', f'digit token, release part :: {norm(node)}',
+                            f'row `{r!r}` appends {app}, count changes: {[norm(i) for i in incs]}; expected [int({m}.group(1))] and {count} += 1', node)
+            elif c.get(PRE) is False and c.get(counts[0]) is False:
+                pass    # a fourth numeric component: outside the SemVer grammar, not judged
+            else:
+                # no state test at all: a numeric pre-release identifier would be lost or counted
+                ctx.violation(mod, 'SemVer.__init__', f'digit token :: {norm(node)}', f'row `{r!r}` handles a digit token without distinguishing the pre-release section from the '
+                              f'three release components (tests seen: {[repr(a) for a in c]})', node)
+        elif c.get(G[2]) is True:
+            # ---- identifier token
+            n_rows['ident'] += 1
+            if r.outcome == ('continue',) and not appended(r):
+                continue    # e.g. a lone '-': outside the grammar, skipped
+            env, _rest = propagate(stmts_of(r))
+            app_nodes = appended(r)
+            strip_atoms = [(a, v) for a, v in c.items() if a.kind == 'truth' and '.startswith(' in a.args[0]]
+            lead_atoms = [(a, v) for a, v in c.items() if a.kind == 'cmp' and a.args[0] == 'eq' and is_const(expr_of(a.args[2])) and isinstance(const_of(expr_of(a.args[2])), str)
+                          and isinstance(expr_of(a.args[1]), ast.Subscript) and _leading_len(expr_of(a.args[1]), norm(expr_of(a.args[1]).value)) == len(const_of(expr_of(a.args[2])))]     # type: ignore[attr-defined]
+            payload = app_nodes[-1] if app_nodes else None
+            if payload is None:
+                ctx.violation(mod, 'SemVer.__init__', f'identifier token :: {norm(node)}', f'row `{r!r}` drops an identifier token', node)
+                continue
+            # core of the payload: m.group(2) or m.group(2)[k:]
+            core_e = payload
+            if isinstance(payload, ast.IfExp):
+                core_e = payload.orelse if (isinstance(payload.body, ast.Call) and norm(payload.body.func) == 'int') else payload.body
+            digit_tests = [(a, v) for a, v in c.items() if a.kind == 'truth' and a.args[0].endswith(('.isdigit()', '.isdecimal()'))]
+            if isinstance(core_e, ast.Call) and norm(core_e.func) == 'int' and digit_tests:
+                core_e = core_e.args[0]
+            core = norm(core_e)
+            k = _tail_from(core_e, f'{m}.group(2)')
+            prefix = ''
+            if k is not None:
+                # the stripped prefix must be the one the row tested for
+                pres = [const_of(expr_of(a.args[0]).args[0]) for a, v in strip_atoms if v and is_const(expr_of(a.args[0]).args[0])]     # type: ignore[attr-defined]
+                pres += [const_of(expr_of(a.args[2])) for a, v in lead_atoms if v]
+                if len(pres) != 1 or not isinstance(pres[0], str) or len(pres[0]) != k:
+                    ctx.violation(mod, 'SemVer.__init__', f'section marker strip :: {norm(node)}', f'row `{r!r}` drops {k} leading character(s) of the identifier but tested for the prefix {pres}', node)
+                    continue
+                prefix = pres[0]
+            elif core != f'{m}.group(2)':
+                raise Undecided(f'SemVer.__init__: appended identifier {short(payload)} is not group(2) or a tail of it')
+            if c.get(PRE) is False:
+                marker = [norm(x) for x in app_nodes[:-1]]
+                padded = any(a in pads and v is False for a, v in c.items())
+                sets = [s for s in stmts_of(r) if isinstance(s, ast.Assign) and norm(s.targets[0]) == pre and norm(s.value) == 'True']
+                ctx.require(marker == ['-1'] and padded and bool(sets), 'first identifier: release part padded to three, slot 3 = -1, pre-release state entered', mod, 'SemVer.__init__',
+                            f'pre-release start :: {norm(node)}', f'row `{r!r}`: values appended before the identifier {marker} (expected [-1]), padded to three components: {padded}, '
+                            f'state flag set: {bool(sets)}', node)
+            elif c.get(PRE) is True:
+                ctx.require(len(app_nodes) == 1 and not prefix, 'identifier inside the pre-release section: appended as is', mod, 'SemVer.__init__', f'identifier, pre-release :: {norm(node)}',
+                            f'row `{r!r}` appends {[norm(x) for x in app_nodes]} (stripped prefix {prefix!r}); expected the identifier alone, unstripped', node)
+            # E6: can this identifier (after the strip of this row) consist of digits only?
+            w = rx.intersects(_re.escape(prefix) + r'[0-9]+', facts['ident'])
+            fam = 'numeric identifier right after the section marker is an int' if prefix else 'all-digit identifier is an int'
+            guarded = _guarded_int(payload, core) or any(v and norm(payload) == f'int({core})' for a, v in digit_tests) \
+                or any((not v) and norm(payload) == core for a, v in digit_tests)
+            if w is None:
+                ctx.ok(f'identifier row ({"after stripping " + repr(prefix) if prefix else "unstripped"}): the identifier alternative cannot yield an all-digit identifier here; stored as text')
+            else:
+                ctx.require(guarded, f'identifier row (after stripping {prefix!r}): all-digit identifiers such as {w!r} are converted with a guarded int()', mod, 'SemVer.__init__',
+                            f'{fam} :: {norm(node)}',
+                            f'{fam}: the identifier alternative {facts["ident"]!r} matches {w!r} as one token; this row strips {prefix!r} and appends `{norm(payload)}` unconverted, '
+                            f'so the numeric identifier {w[len(prefix):]!r} is stored as str (e.g. 1.0.0{w} : SemVer("1.0.0-2") < SemVer("1.0.0-10") is False)', node)
         else:
-            toks, got, want, node = bad
-            text = ''.join(('.' if (i and g == 1) or (i and g == 2 and not t.startswith('-')) else '') + t for i, (g, t) in enumerate(toks))
-            ctx.violation(mod, 'SemVer.__init__', f'{family} :: {norm(node)}',
-                          f'{family}: the token sequence {[t for _g, t in toks]} (e.g. version text {text!r}) is stored as _v={got[0]!r}, specified_count={got[1]}; '
-                          f'SemVer 2.0.0 reading is {want[0]!r}, {want[1]} (the identifier alternative of the tokenizer matches {toks[-1][1]!r} as one token)', node)
-    ctx.floor('tokenizer worlds', n, 14)
+            # ---- neither digits nor identifier: by the language facts this is the build alternative
+            n_rows['build'] += 1
+            ctx.require(r.outcome == ('break',) and not appended(r), 'build metadata token stops tokenisation', mod, 'SemVer.__init__', f'build token :: {norm(node)}',
+                        f'row `{r!r}` leaves by {r.outcome} after appending {[norm(x) for x in appended(r)]}; "+build" must end the scan (break) without storing anything', node)
+    ctx.floor('tokenizer rows: digit', n_rows['digit'], 3)
+    ctx.floor('tokenizer rows: identifier', n_rows['ident'], 3)
+    ctx.floor('tokenizer rows: build', n_rows['build'], 1)
 
 
 # =====================================================================================================
 # R3  cfg evaluation
 # =====================================================================================================
 
-def _cfg_models(ctx: RuleCtx, mod: Module) -> T.Dict[str, T.Any]:
-    classes: T.Dict[str, ClassRef] = {}
+def _ir_classes(mod: Module) -> T.Dict[str, T.Dict[str, T.Any]]:
+    """Dataclasses of cfg.py: name -> {'fields': [(name, annotation text)], 'bases': [...]}"""
+    out: T.Dict[str, T.Dict[str, T.Any]] = {}
     for name, c in mod.classes().items():
-        bases = [attr_chain(b) or '' for b in c.bases]
-        if any(d in ('dataclasses.dataclass', 'dataclass') for d in [attr_chain(x.func if isinstance(x, ast.Call) else x) for x in c.decorator_list]):
-            allb: T.List[str] = []
-            todo = list(bases)
-            while todo:
-                b = todo.pop()
-                if b in allb:
-                    continue
-                allb.append(b)
-                if mod.has_cls(b):
-                    todo.extend(attr_chain(x) or '' for x in mod.cls(b).bases)
-            classes[name] = dataclass_model(c, allb)
-    tt = mod.cls('TokenType')
-    members = Folder(ctx.repo, mod)._enum_members(mod, tt)
-    token = Namespace('TokenType', **{k: EnumVal('TokenType', k) for k in members})
-    env: T.Dict[str, T.Any] = dict(classes)
-    env['TokenType'] = token
-    env['MesonException'] = ExcClass('MesonException', ('Exception',))
-    env['MesonBugException'] = ExcClass('MesonBugException', ('MesonException', 'Exception'))
-    return {'classes': classes, 'token': token, 'env': env}
+        decos = [attr_chain(x.func if isinstance(x, ast.Call) else x) for x in c.decorator_list]
+        if not any(d in ('dataclasses.dataclass', 'dataclass') for d in decos):
+            continue
+        fields = [(st.target.id, norm(st.annotation)) for st in c.body if isinstance(st, ast.AnnAssign) and isinstance(st.target, ast.Name)]
+        out[name] = {'fields': fields, 'bases': [attr_chain(b) or '' for b in c.bases]}
+    return out
 
 
 def _built_classes(mod: Module, fn: ast.FunctionDef, classes: T.Dict[str, ClassRef]) -> T.Set[str]:
@@ -635,327 +991,515 @@ def _built_classes(mod: Module, fn: ast.FunctionDef, classes: T.Dict[str, ClassR
     return out
 
 
-REF_DENOTATION = {  # IR class -> meaning (Rust reference: conditional compilation)
-    'Identifier': 'name is set', 'Equal': 'name is set to exactly that value', 'Not': 'negation', 'Any': 'disjunction (false when empty)',
-    'All': 'conjunction (true when empty)'}
+REF_DENOTATION = {  # IR class -> (meaning, denoting construct)   (Rust reference: conditional compilation)
+    'Identifier': ('name is set', 'in'), 'Equal': ('name is set to exactly that value', 'get =='), 'Not': ('negation', 'not'),
+    'Any': ('disjunction', 'any'), 'All': ('conjunction', 'all')}
+
+
+def _eval_arms(mod: Module) -> T.Dict[str, T.Tuple[str, T.Optional[ast.AST]]]:
+    """class -> (denoting construct found | 'missing' | description of something else, node)"""
+    fn = mod.func('_eval_cfg')
+    ircls = _ir_classes(mod)
+    tab = tables.extract(fn, bool_returns=True, name='_eval_cfg')
+    me = fn.name
+    out: T.Dict[str, T.Tuple[str, T.Optional[ast.AST]]] = {}
+    inst = [a for a in tab.atoms() if a.kind == 'isinstance']
+    for a in inst:
+        if a.args[0] != 'ARG1':
+            raise Undecided(f'_eval_cfg: isinstance test on {a.args[0]}')
+    for cname, info in ircls.items():
+        def is_a(names: T.Tuple[str, ...]) -> bool:
+            return cname in names or any(b in names for b in info['bases'])
+        rows = [r for r in tab.rows if all(is_a(a.args[1]) == v for a, v in r.conds.items() if a.kind == 'isinstance')]
+        node = rows[0].path.events[-1].node if rows and rows[0].path.events else fn
+        if not rows or any(r.outcome[0] != 'return' for r in rows):
+            out[cname] = ('missing', node)
+            continue
+        others = {a for r in rows for a in r.conds if a.kind != 'isinstance'}
+        if len(others) != 1 or len(rows) != 2:
+            out[cname] = (f'{len(rows)} rows over the tests {[repr(a) for a in others]}', node)
+            continue
+        atom = others.pop()
+        val = {r.conds[atom]: r.outcome[1] for r in rows}
+        if val == {True: 'True', False: 'False'}:
+            pol = True
+        elif val == {True: 'False', False: 'True'}:
+            pol = False
+        else:
+            out[cname] = (f'returns {val} on `{atom!r}`', node)
+            continue
+        f = [x[0] for x in info['fields']]
+        ann = dict(info['fields'])
+        found = f'`{"" if pol else "not "}{atom!r}`'
+        if atom == Atom('in', (f'ARG1.{f[0]}', 'ARG2')) and pol and len(f) == 1:
+            found = 'in'
+        elif atom.kind == 'cmp' and atom.args[0] == 'eq' and pol and len(f) == 2 and ann[f[0]] in ircls and ann[f[1]] in ircls:
+            lf, rf = ircls[ann[f[0]]]['fields'][0][0], ircls[ann[f[1]]]['fields'][0][0]
+            if {atom.args[1], atom.args[2]} == {f'ARG2.get(ARG1.{f[0]}.{lf})', f'ARG1.{f[1]}.{rf}'}:
+                found = 'get =='
+        elif atom.kind == 'truth' and len(f) == 1:
+            e = expr_of(atom.args[0])
+            if isinstance(e, ast.Call) and norm(e.func) == me and [norm(x) for x in e.args] == [f'ARG1.{f[0]}', 'ARG2']:
+                found = 'not' if not pol else 'identity'
+            elif isinstance(e, ast.Call) and norm(e.func) in ('any', 'all') and pol and len(e.args) == 1 and isinstance(e.args[0], (ast.GeneratorExp, ast.ListComp)) \
+                    and len(e.args[0].generators) == 1 and not e.args[0].generators[0].ifs and isinstance(e.args[0].generators[0].target, ast.Name):
+                g = e.args[0].generators[0]
+                if norm(g.iter) == f'ARG1.{f[0]}' and norm(e.args[0].elt) == f'{me}({g.target.id}, ARG2)':     # type: ignore[attr-defined]
+                    found = norm(e.func)
+        out[cname] = (found, node)
+    return out
 
 
 def r3_eval(ctx: RuleCtx) -> None:
     mod = ctx.repo.module(CFGPY)
-    m = _cfg_models(ctx, mod)
-    classes: T.Dict[str, ClassRef] = m['classes']
-    parse_fn = mod.func('_parse')
-    ev_fn = mod.func('_eval_cfg')
-    built = _built_classes(mod, parse_fn, classes)
+    ircls = _ir_classes(mod)
+    built = _built_classes(mod, mod.func('_parse'), {k: None for k in ircls})     # type: ignore[arg-type]
     ctx.floor('IR classes built by _parse', len(built), 5)
     unknown = built - set(REF_DENOTATION)
     if unknown:
         raise Undecided(f'_parse builds IR classes without a reference denotation: {sorted(unknown)}')
-
-    def run(ir: Obj, cfgs: T.Dict[str, str], oracle: T.Dict[int, bool]) -> T.Any:
-        it = Interp(dict(m['env']), name='_eval_cfg')
-        real = it.closure(ev_fn)
-
-        def dispatch(node: T.Any, c: T.Any) -> T.Any:
-            if isinstance(node, Obj) and node.cls == '%child':
-                if c is not cfgs:
-                    raise Undecided('_eval_cfg: a child is evaluated against a different configuration')
-                return oracle[node.attrs['n']]
-            return real(node, c)
-        it.globals.set('_eval_cfg', dispatch)
-        try:
-            return real(ir, cfgs), it
-        except Raised as r:
-            return r, it
-
-    def child(i: int) -> Obj:
-        return Obj('%child', ('IR',), {'n': i}, strict=True)
-    C = classes
-    worlds: T.Dict[str, T.List[T.Tuple[str, Obj, T.Dict[str, str], T.Dict[int, bool], bool]]] = {k: [] for k in REF_DENOTATION}
-    cfg_grid = [{}, {'a': ''}, {'a': 'x'}, {'a': 'y'}, {'b': 'x'}, {'a': 'x', 'b': 'y'}, {'x': 'a'}]
-    for cfgs in cfg_grid:
-        worlds['Identifier'].append((f'a in {cfgs}', C['Identifier']('a'), cfgs, {}, 'a' in cfgs))
-        for v in ('x', ''):
-            worlds['Equal'].append((f'a = "{v}" in {cfgs}', C['Equal'](C['Identifier']('a'), C['String'](v)), cfgs, {}, cfgs.get('a') == v))
-    for b in (True, False):
-        worlds['Not'].append((f'not({b})', C['Not'](child(0)), {'a': 'x'}, {0: b}, not b))
-    for k in range(4):
-        for bits in itertools.product((True, False), repeat=k):
-            oracle = dict(enumerate(bits))
-            kids = [child(i) for i in range(k)]
-            worlds['Any'].append((f'any{bits}', C['Any'](kids), {'a': 'x'}, oracle, any(bits)))
-            worlds['All'].append((f'all{bits}', C['All'](list(kids)), {'a': 'x'}, oracle, all(bits)))
+    arms = _eval_arms(mod)
     for cname in sorted(built):
-        bad = None
-        for desc, ir, cfgs, oracle, want in worlds[cname]:
-            got, it = run(ir, cfgs, oracle)
-            if isinstance(got, Raised) or got is not want:
-                rets = [st for st in it.trace if isinstance(st, (ast.Return, ast.Raise))]
-                bad = (desc, got.exc if isinstance(got, Raised) else got, want, rets[-1] if rets else ev_fn)
-                break
-        if bad is None:
-            ctx.ok(f'_eval_cfg: arm for {cname} denotes "{REF_DENOTATION[cname]}" on {len(worlds[cname])} worlds')
-        else:
-            desc, got, want, node = bad
-            ctx.violation(mod, '_eval_cfg', node, f'{cname} must denote "{REF_DENOTATION[cname]}": for {desc} the arm gives {got!r}, expected {want!r}', node)
+        found, node = arms[cname]
+        meaning, want = REF_DENOTATION[cname]
+        ctx.require(found == want, f'_eval_cfg: arm for {cname} denotes "{meaning}" by `{want}`', mod, '_eval_cfg', f'arm for {cname}',
+                    f'{cname} must denote "{meaning}" (`{want}` over its field(s) and the configuration); the arm ' +
+                    ('is missing: the value falls through to the MesonBugException arm' if found == 'missing' else f'is {found}'), node)
 
 
 KEYWORDS = {'all': 'ALL', 'any': 'ANY', 'not': 'NOT'}
 DELIMS = {'(': 'LPAREN', ')': 'RPAREN', ',': 'COMMA', '=': 'EQUAL'}
-TOKEN_CLASS = {'ALL': 'All', 'ANY': 'Any', 'NOT': 'Not', 'IDENTIFIER': 'Identifier'}
+TOKEN_CLASS = {'ALL': 'All', 'ANY': 'Any', 'NOT': 'Not'}
+
+
+def _lexer_table(ctx: RuleCtx, mod: Module) -> T.Dict[str, str]:
+    """Checks the decision table of the lexer loop body; returns keyword -> token member."""
+    fn = mod.func('lexer')
+    raw = fn.args.args[0].arg
+    loops = [s for s in fn.body if isinstance(s, ast.For)]
+    if len(loops) != 1:
+        raise Undecided('lexer: expected one character loop')
+    loop = loops[0]
+    ok = isinstance(loop.iter, ast.Call) and norm(loop.iter.func) == 'enumerate' and [norm(a) for a in loop.iter.args] == [raw] \
+        and isinstance(loop.target, ast.Tuple) and len(loop.target.elts) == 2 and all(isinstance(x, ast.Name) for x in loop.target.elts)
+    if not ok:
+        raise Undecided(f'lexer: the loop is not `for i, s in enumerate({raw})`')
+    I, S = (x.id for x in loop.target.elts)     # type: ignore[attr-defined]
+    tab = tables.extract(fn, body=loop.body, effects=eff, inline=False, name='lexer:char')
+    # names by role: the word (a slice of the input ending at i), the start index, the in-string flag
+    words = {norm(s.targets[0]) for s in ast.walk(loop) if isinstance(s, ast.Assign) and isinstance(s.value, ast.Subscript) and norm(s.value.value) == raw
+             and isinstance(s.value.slice, ast.Slice) and norm(s.value.slice.upper) == I}
+    flags = {norm(s.targets[0]) for s in ast.walk(loop) if isinstance(s, ast.Assign) and isinstance(s.value, ast.Constant) and s.value.value is True} & \
+        {norm(s.targets[0]) for s in ast.walk(loop) if isinstance(s, ast.Assign) and isinstance(s.value, ast.Constant) and s.value.value is False}
+    if len(words) != 1 or len(flags) != 1:
+        raise Undecided(f'lexer: word variable {sorted(words)} / in-string flag {sorted(flags)} not identifiable')
+    W, F = words.pop(), flags.pop()
+    wdef = [s for s in ast.walk(loop) if isinstance(s, ast.Assign) and norm(s.targets[0]) == W][0]
+    START = norm(wdef.value.slice.lower) if wdef.value.slice.lower is not None else None     # type: ignore[attr-defined]
+    if START is None:
+        raise Undecided('lexer: the word does not start at a tracked index')
+
+    def atom_pred(a: Atom) -> T.Callable[[str, str, bool], bool]:
+        if a == Atom('truth', (f'{S}.isspace()',)):
+            return lambda s, w, f: s == ' '
+        if a == Atom('truth', (F,)):
+            return lambda s, w, f: f
+        if a == Atom('truth', (W,)):
+            return lambda s, w, f: w != ''
+        if a.kind == 'in' and a.args[0] in (S, W) and is_const(expr_of(a.args[1])):
+            cs = const_of(expr_of(a.args[1]))
+            return (lambda s, w, f: s in cs) if a.args[0] == S else (lambda s, w, f: w in cs)
+        if a.kind == 'cmp' and a.args[0] == 'eq' and a.args[1] in (S, W) and is_const(expr_of(a.args[2])):
+            c = const_of(expr_of(a.args[2]))
+            return (lambda s, w, f: s == c) if a.args[1] == S else (lambda s, w, f: w == c)
+        raise Undecided(f'lexer: atom outside the vocabulary: {a!r}')
+    preds = {a: atom_pred(a) for a in tab.atoms()}
+    kw_tokens: T.Dict[str, str] = {}
+    bad_string: T.Optional[T.Tuple[tables.Row, str]] = None
+    n = 0
+    for s_cls, w_cls, in_str in itertools.product([' ', '(', ')', ',', '=', '"', 'x'], ['any', 'all', 'not', 'w', ''], [False, True]):
+        world = {a: p(s_cls, w_cls, in_str) for a, p in preds.items()}
+        rows = tab.fire(world)
+        if len(rows) != 1:
+            raise Undecided(f'lexer: {len(rows)} rows fire for character class {s_cls!r}, pending word {w_cls!r}, in string {in_str}')
+        n += 1
+        r = rows[0]
+        sts = stmts_of(r)
+        ys = [norm(st.value.value) for st in sts if isinstance(st, ast.Expr) and isinstance(st.value, ast.Yield)]
+        writes = {norm(st.targets[0]): norm(st.value) for st in sts if isinstance(st, ast.Assign) and norm(st.targets[0]) in (START, F)}
+        node = r.path.events[-1].node if r.path.events else loop
+        desc = f'character {s_cls!r}, pending word {w_cls!r}, {"inside" if in_str else "outside"} a string literal'
+        if in_str and s_cls != '"':
+            # inside a string literal only the closing quote acts
+            if (ys or writes) and bad_string is None:
+                bad_string = (r, f'{desc}: the row yields {ys} and writes {writes}; inside a string literal every character except the closing quote is text '
+                                 f'(`feature = "a b"` must lex as IDENTIFIER EQUAL STRING)')
+            continue
+        if in_str:
+            want_y = [f'(TokenType.STRING, {W})']
+            want_w = {START: f'{I} + 1', F: 'False'}
+        elif s_cls == 'x':
+            want_y, want_w = [], {}
+        else:
+            want_y = []
+            if w_cls in KEYWORDS:
+                want_y.append(None)     # type: ignore[arg-type]   # a keyword token: member read below
+            elif w_cls:
+                want_y.append(f'(TokenType.IDENTIFIER, {W})')
+            if s_cls in DELIMS:
+                want_y.append(f'(TokenType.{DELIMS[s_cls]}, None)')
+            want_w = {START: f'{I} + 1'}
+            if s_cls == '"':
+                want_w[F] = 'True'
+        got_y = list(ys)
+        if None in want_y and len(got_y) == len(want_y):
+            e = expr_of(got_y[0])
+            if isinstance(e, ast.Tuple) and len(e.elts) == 2 and (attr_chain(e.elts[0]) or '').startswith('TokenType.') and norm(e.elts[1]) == 'None':
+                member = attr_chain(e.elts[0]).split('.')[1]     # type: ignore[union-attr]
+                if kw_tokens.setdefault(w_cls, member) == member:
+                    want_y[0] = got_y[0]
+        ctx.require(got_y == want_y and writes == want_w, f'lexer: {desc}: tokens {want_y}, state {want_w}', mod, 'lexer', f'lexer row: {desc}',
+                    f'{desc}: the row yields {got_y} and writes {writes}; expected tokens {["<keyword token>" if y is None else y for y in want_y]} and writes {want_w}', node)
+    ctx.floor('lexer worlds', n, 70)
+    if bad_string is None:
+        ctx.ok('lexer: inside a string literal only the closing quote yields a token or moves the start index')
+    else:
+        r, msg = bad_string
+        ctx.violation(mod, 'lexer', 'lexer: delimiter inside a string literal', msg, r.path.events[-1].node if r.path.events else loop)
+    # after the loop: a pending non-empty word is an identifier
+    post = fn.body[fn.body.index(loop) + 1:]
+    t2 = tables.extract(fn, body=post, effects=eff, inline=False, name='lexer:tail')
+    for r in t2.rows:
+        env, rest = propagate(stmts_of(r))
+        ys = [norm(st.value.value) for st in rest if isinstance(st, ast.Expr) and isinstance(st.value, ast.Yield)]
+        truth = [v for a, v in r.conds.items() if a.kind == 'truth']
+        want = [f'(TokenType.IDENTIFIER, ARG1[{START}:])'] if truth == [True] else []
+        ctx.require(len(truth) == 1 and ys == want, f'lexer: at the end of the text a pending word is {"an IDENTIFIER" if want else "nothing when empty"}', mod, 'lexer', f'lexer tail {truth}',
+                    f'after the loop the row `{r!r}` yields {ys}; expected {want}', r.path.events[-1].node if r.path.events else fn)
+    return kw_tokens
 
 
 def r3_maps(ctx: RuleCtx) -> None:
     mod = ctx.repo.module(CFGPY)
-    m = _cfg_models(ctx, mod)
-    lex = mod.func('lexer')
-    tok = m['token']._attrs
-
-    def run_lexer(text: str) -> T.List[T.Tuple[str, T.Any]]:
-        it = Interp(dict(m['env']), name='lexer', max_steps=60000)
-        try:
-            out = it.closure(lex)(text)
-        except Raised as r:
-            raise _undecided_on_raise(f'lexer({text!r})', r)
-        res = []
-        for t in out:
-            if not (isinstance(t, tuple) and len(t) == 2 and isinstance(t[0], EnumVal)):
-                raise Undecided(f'lexer yields {t!r}')
-            res.append((t[0].name, t[1]))
-        return res
-    # keyword -> token, before every delimiter; other words -> IDENTIFIER carrying the text
-    for word in list(KEYWORDS) + ['unix', 'allx', 'nota', 'target_os']:
-        want_t = (KEYWORDS[word], None) if word in KEYWORDS else ('IDENTIFIER', word)
-        bad = None
-        for d, dt in list(DELIMS.items()) + [(' ', None), ('\t', None)]:
-            got = run_lexer(word + d + 'z')
-            want = [want_t] + ([(dt, None)] if dt else []) + [('IDENTIFIER', 'z')]
-            if got != want:
-                bad = (word + d + 'z', got, want)
-                break
-        ctx.require(bad is None, f'lexer: word {word!r} -> {want_t[0]} before each of ( ) , = and white space', mod, 'lexer', f'lexer word {word}',
-                    f'lexer({bad[0]!r}) yields {bad[1]}; expected {bad[2]}' if bad else '')
-    # strings: the text between the quotes, also when empty; identifiers are never empty
-    for text, want in (('a = "x"', [('IDENTIFIER', 'a'), ('EQUAL', None), ('STRING', 'x')]), ('a=""', [('IDENTIFIER', 'a'), ('EQUAL', None), ('STRING', '')]),
-                       ('all(a, b)', [('ALL', None), ('LPAREN', None), ('IDENTIFIER', 'a'), ('COMMA', None), ('IDENTIFIER', 'b'), ('RPAREN', None)]),
-                       ('not(a = "all")', [('NOT', None), ('LPAREN', None), ('IDENTIFIER', 'a'), ('EQUAL', None), ('STRING', 'all'), ('RPAREN', None)]),
-                       ('  ( ,', [('LPAREN', None), ('COMMA', None)])):
-        got = run_lexer(text)
-        ctx.require(got == want, f'lexer({text!r}) -> {[t for t, _ in want]}', mod, 'lexer', f'lexer text {text}', f'lexer({text!r}) yields {got}; expected {want}')
-    # a string literal runs to the closing quote: delimiters inside it are text (cargo-platform's tokenizer; no escapes)
-    bad_s = None
-    for body in ('x y', 'a,b', '(x)', 'k=v', ' ', 'all', 'sse4.1'):
-        text = f'a = "{body}"'
-        got = run_lexer(text)
-        want = [('IDENTIFIER', 'a'), ('EQUAL', None), ('STRING', body)]
-        if got != want and bad_s is None:
-            bad_s = (text, got, want)
-    ctx.require(bad_s is None, 'lexer: white space and ( ) , = inside a string literal are part of the STRING token', mod, 'lexer', 'lexer: delimiter inside a string literal',
-                f'lexer({bad_s[0]!r}) yields {bad_s[1]}; expected {bad_s[2]} (the text between the quotes is one STRING token)' if bad_s else '', lex)
-    # token -> IR class (one level: nested expressions are an oracle non-terminal)
-    parse_fn = mod.func('_parse')
-    for tname, cname in TOKEN_CLASS.items():
-        if tname == 'IDENTIFIER':
-            stream = [(tok['IDENTIFIER'], 'a')]
-        elif tname == 'NOT':
-            stream = [(tok['NOT'], None), (tok['LPAREN'], None), ('<expr>', 0), (tok['RPAREN'], None)]
-        else:
-            stream = [(tok[tname], None), (tok['LPAREN'], None), ('<expr>', 0), (tok['COMMA'], None), ('<expr>', 1), (tok['RPAREN'], None)]
-        res, st, it = _run_parse(m, parse_fn, stream)
-        ok = isinstance(res, Obj) and res.cls == cname and st.exhausted()
-        ctx.require(ok, f'_parse: token {tname} builds {cname}', mod, '_parse', f'token {tname}',
-                    f'a {tname} expression is parsed to {res!r}; the keyword/token/IR maps require {cname}', _last_ret(it, parse_fn))
-
-
-def _last_ret(it: Interp, fn: ast.AST) -> ast.AST:
-    rets = [st for st in it.trace if isinstance(st, (ast.Return, ast.Raise))]
-    return rets[-1] if rets else fn
-
-
-def _lookahead(items: T.List[T.Any]) -> Stream:
-    return Stream([(x, items[i + 1] if i + 1 < len(items) else None) for i, x in enumerate(items)])
-
-
-def _run_parse(m: T.Dict[str, T.Any], parse_fn: ast.FunctionDef, stream: T.List[T.Any]) -> T.Tuple[T.Any, Stream, Interp]:
-    """Evaluate _parse on a shape-level stream; ('<expr>', n) is a nested expression handled by an oracle."""
-    it = Interp(dict(m['env']), name='_parse')
-    real = it.closure(parse_fn)
-    st = _lookahead(stream)
-
-    def dispatch(s: T.Any) -> T.Any:
-        if s is not st:
-            raise Undecided('_parse recurses on a different stream')
-        if st.pos < len(st.items) and isinstance(st.items[st.pos][0], tuple) and st.items[st.pos][0][0] == '<expr>':
-            (_, n), _nx = next(st)
-            return Obj('%child', ('IR',), {'n': n}, strict=True)
-        return real(s)
-    it.globals.set('_parse', dispatch)
-    try:
-        return dispatch(st), st, it
-    except Raised as r:
-        return r, st, it
+    kw = _lexer_table(ctx, mod)
+    members = {t.id for st in mod.cls('TokenType').body if isinstance(st, ast.Assign) for t in st.targets if isinstance(t, ast.Name)}
+    ctx.require(set(kw) == set(KEYWORDS) and len(set(kw.values())) == 3 and set(kw.values()) <= members, f'lexer: the three keywords map to three distinct TokenType members {kw}',
+                mod, 'lexer', 'keyword tokens', f'keyword -> token map of the lexer is {kw}; expected three distinct members of TokenType for all/any/not')
+    tmap = _parse_analysis(ctx, mod, report=False)['token_class']
+    arms = _eval_arms(mod)
+    for k in KEYWORDS:
+        tok = kw.get(k)
+        cls = tmap.get(tok or '')
+        den = arms.get(cls or '', ('?', None))[0]
+        ctx.require(den == k, f'keyword {k!r} -> TokenType.{tok} -> {cls} -> `{den}`', mod, '<module>', f'keyword chain {k}',
+                    f'the keyword {k!r} is lexed to TokenType.{tok}, parsed to {cls}, and evaluated by `{den}`: the three maps do not compose to `{k}`')
 
 
 # =====================================================================================================
 # R4  malformed input is rejected, not mis-evaluated
 # =====================================================================================================
 
-class _Reject(Exception):
-    def __init__(self, why: str, pos: int):
-        self.why, self.pos = why, pos
+class _SubCalls(ast.NodeTransformer):
+    """Replace recursive calls by numbered placeholders (in evaluation order)."""
+
+    def __init__(self, fname: str, arg: str, start: int):
+        self.fname, self.arg, self.n = fname, arg, start
+        self.seen: T.List[int] = []
+
+    def visit_Call(self, node: ast.Call) -> ast.AST:
+        self.generic_visit(node)
+        if isinstance(node.func, ast.Name) and node.func.id == self.fname and [norm(a) for a in node.args] == [self.arg]:
+            self.n += 1
+            self.seen.append(self.n)
+            return ast.Name(id=f'sub{self.n}', ctx=ast.Load())
+        return node
 
 
-def _ref_parse_shape(toks: T.List[T.Any]) -> T.Tuple[str, T.Any, int, T.Dict[int, str]]:
-    """Reference cfg grammar over token kinds: `all(` / `any(` take a possibly empty comma separated list, `not(` exactly
-    one predicate, a predicate is `name` or `name = "string"`.  A trailing comma is *malformed* here: Cargo and rustc accept
-    `all(a,)`, but the project pins it as invalid in its own tests (unittests/cargotests.py, test_parse_invalid), and the
-    property statement follows the pinned tests.  '<expr>' = an already parsed nested expression.
-    Returns ('ok', shape, consumed, labels) or ('reject', why, pos, labels); labels name the grammar element each token matched."""
-    labels: T.Dict[int, str] = {}
+def _trace(fn: ast.FunctionDef, p: Path) -> T.Optional[T.Tuple[T.List[T.Tuple[T.Any, ...]], T.Tuple[T.Any, ...]]]:
+    """Abstract one enumerated path of the recursive parser to its sequence of stream operations and token tests.
+    Items: ('read', k) ('skip', k) ('expect', MEMBER, k) ('test', MEMBER, k, bool) ('testin', members, k, bool)
+    ('look', MEMBER, j, bool) ('lookany', j, bool) ('sub', n).  None = the path is infeasible (constant-false test)."""
+    arg = fn.args.args[0].arg
+    env: T.Dict[str, ast.AST] = {}
+    tr: T.List[T.Tuple[T.Any, ...]] = []
+    reads = 0
+    cur = 0
+    subs = 0
 
-    def kind(i: int) -> T.Any:
-        return toks[i] if i < len(toks) else None
+    def member(e: ast.AST) -> T.Optional[str]:
+        c = attr_chain(e) or ''
+        return c.split('.')[1] if c.startswith('TokenType.') and c.count('.') == 1 else None
 
-    def expr(i: int) -> T.Tuple[T.Any, int]:
-        k = kind(i)
-        if k == '<expr>':
-            labels[i] = 'nested expression'
-            n = sum(1 for x in toks[:i] if x == '<expr>')
-            return ('child', n), i + 1
-        if k == 'IDENTIFIER':
-            labels[i] = 'identifier'
-            if kind(i + 1) == 'EQUAL':
-                labels[i + 1] = 'equal sign'
-                if kind(i + 2) == 'STRING':
-                    labels[i + 2] = 'string value'
-                    return ('Equal',), i + 3
-                raise _Reject('string expected', i + 2)
-            return ('Identifier',), i + 1
-        if k in ('ALL', 'ANY'):
-            labels[i] = 'all/any keyword'
-            if kind(i + 1) != 'LPAREN':
-                raise _Reject('( expected', i + 1)
-            labels[i + 1] = 'opening parenthesis of a list'
-            j = i + 2
-            args: T.List[T.Any] = []
-            if kind(j) == 'RPAREN':
-                labels[j] = 'closing parenthesis of an empty list'
-                return (TOKEN_CLASS[k], ()), j + 1
-            while True:
-                a, j = expr(j)
-                args.append(a)
-                if kind(j) == 'RPAREN':
-                    labels[j] = 'closing parenthesis of a list'
-                    return (TOKEN_CLASS[k], tuple(args)), j + 1
-                if kind(j) != 'COMMA':
-                    raise _Reject(') or , expected', j)
-                labels[j] = 'comma'
-                j += 1
-        if k == 'NOT':
-            labels[i] = 'not keyword'
-            if kind(i + 1) != 'LPAREN':
-                raise _Reject('( expected', i + 1)
-            labels[i + 1] = 'opening parenthesis of not'
-            a, j = expr(i + 2)
-            if kind(j) != 'RPAREN':
-                raise _Reject(') expected', j)
-            labels[j] = 'closing parenthesis of not'
-            return ('Not', a), j + 1
-        raise _Reject('expression expected', i)
-    try:
-        shape, used = expr(0)
-    except _Reject as r:
-        return ('reject', r.why, r.pos, labels)
-    return ('ok', shape, used, labels)
+    def with_subs(e: ast.AST) -> ast.AST:
+        nonlocal subs
+        sc = _SubCalls(fn.name, arg, subs)
+        e2 = sc.visit(copy.deepcopy(e))
+        for n in sc.seen:
+            tr.append(('sub', n))
+        subs = sc.n
+        return e2
 
-
-def _shape_of(res: T.Any) -> T.Any:
-    if not isinstance(res, Obj):
-        return ('?', repr(res))
-    vals = list(res.attrs.values())
-    if res.cls == '%child':
-        return ('child', res.attrs['n'])
-    if res.cls in ('Any', 'All') and len(vals) == 1 and isinstance(vals[0], list):
-        return (res.cls, tuple(_shape_of(a) for a in vals[0]))
-    if res.cls == 'Not' and len(vals) == 1:
-        return ('Not', _shape_of(vals[0]))
-    if res.cls == 'Equal' and len(vals) == 2:
-        l, r = vals
-        ok = isinstance(l, Obj) and l.cls == 'Identifier' and list(l.attrs.values()) == ['a'] and isinstance(r, Obj) and r.cls == 'String' and list(r.attrs.values()) == ['s']
-        return ('Equal',) if ok else ('?', repr(res))
-    if res.cls == 'Identifier':
-        return ('Identifier',) if vals == ['a'] else ('?', repr(res))
-    return ('?', repr(res))
-
-
-def r4_parse_table(ctx: RuleCtx) -> None:
-    mod = ctx.repo.module(CFGPY)
-    m = _cfg_models(ctx, mod)
-    tok = m['token']._attrs
-    parse_fn = mod.func('_parse')
-    kinds = ['IDENTIFIER', 'STRING', 'ALL', 'ANY', 'NOT', 'LPAREN', 'RPAREN', 'COMMA', 'EQUAL', '<expr>']
-    valid = [['IDENTIFIER'], ['IDENTIFIER', 'EQUAL', 'STRING'], ['NOT', 'LPAREN', '<expr>', 'RPAREN'],
-             ['ALL', 'LPAREN', 'RPAREN'], ['ANY', 'LPAREN', 'RPAREN'], ['ALL', 'LPAREN', '<expr>', 'RPAREN'], ['ANY', 'LPAREN', '<expr>', 'RPAREN'],
-             ['ALL', 'LPAREN', '<expr>', 'COMMA', '<expr>', 'RPAREN'], ['ANY', 'LPAREN', '<expr>', 'COMMA', '<expr>', 'COMMA', '<expr>', 'RPAREN'],
-             ['NOT', 'LPAREN', 'IDENTIFIER', 'RPAREN'], ['ANY', 'LPAREN', 'IDENTIFIER', 'EQUAL', 'STRING', 'COMMA', 'NOT', 'LPAREN', '<expr>', 'RPAREN', 'RPAREN']]
-    total = 0
-    bad: T.Dict[str, T.Tuple[ast.AST, str]] = {}
-    for v in valid:
-        before = len(bad)
-        streams: T.Dict[T.Tuple[str, ...], None] = {tuple(v): None}
-        for i in range(len(v) + 1):
-            streams.setdefault(tuple(v[:i]))                       # truncation
-            for k in kinds:
-                streams.setdefault(tuple(v[:i] + [k] + v[i:]))     # insertion
-                if i < len(v):
-                    streams.setdefault(tuple(v[:i] + [k] + v[i + 1:]))   # replacement
-            if i < len(v):
-                streams.setdefault(tuple(v[:i] + v[i + 1:]))       # deletion
-        n_ok = n_rej = 0
-        for s in streams:
-            if not s or s[0] == '<expr>':
-                continue    # a leading nested expression would be consumed by the oracle, not by _parse
-            nexpr = 0
-            items: T.List[T.Any] = []
-            for k in s:
-                if k == '<expr>':
-                    items.append(('<expr>', nexpr))
-                    nexpr += 1
-                else:
-                    items.append((tok[k], {'IDENTIFIER': 'a', 'STRING': 's'}.get(k)))
-            want = _ref_parse_shape(list(s))
-            res, st, it = _run_parse(m, parse_fn, items)
-            node = _last_ret(it, parse_fn)
-            text = ' '.join(s)
-            # findings are keyed by the grammar element concerned (one finding per defect, not per token sequence)
-            if want[0] == 'ok':
-                n_ok += 1
-                if isinstance(res, Raised):
-                    elem = want[3].get(st.pos - 1, 'end of the expression') if res.exc.cls != 'StopIteration' else 'end of the token stream'
-                    bad.setdefault(f'well-formed input rejected at: {elem} :: {norm(node)}',
-                                   (node, f'the well-formed token sequence `{text}` is rejected with {res.exc!r} at token {st.pos - 1} ({elem})'))
-                elif _shape_of(res) != want[1] or st.pos != want[2]:
-                    bad.setdefault(f'wrong IR for {want[1][0]} :: {norm(node)}',
-                                   (node, f'`{text}` is parsed to {res!r} consuming {st.pos} tokens; the grammar gives {want[1]} consuming {want[2]}'))
+    def is_next(e: ast.AST) -> bool:
+        return isinstance(e, ast.Call) and norm(e.func) == 'next' and [norm(a) for a in e.args] == [arg]
+    for ev in p.events:
+        st = ev.node
+        if ev.kind == 'cond':
+            a, pol = tables.canon(resolve(st, env), True)      # type: ignore[arg-type]
+            val = ev.val == pol
+            if a.kind == 'is' and a.args[0].startswith('tok') and member(expr_of(a.args[1])):
+                tr.append(('test', member(expr_of(a.args[1])), int(a.args[0][3:]), val))
+            elif a.kind == 'in' and a.args[0].startswith('tok') and isinstance(expr_of(a.args[1]), (ast.Set, ast.Tuple, ast.List)):
+                ms = frozenset(member(x) or '?' for x in expr_of(a.args[1]).elts)     # type: ignore[attr-defined]
+                tr.append(('testin', ms, int(a.args[0][3:]), val))
+            elif a.kind == 'is' and a.args[0].startswith('looktok') and member(expr_of(a.args[1])):
+                tr.append(('look', member(expr_of(a.args[1])), int(a.args[0][7:]), val))
+            elif a.kind == 'cmp' and a.args[0] == 'eq' and any(x.startswith('look') and x.endswith('[0]') for x in a.args[1:]):
+                lk = [x for x in a.args[1:] if x.startswith('look')][0]
+                other = [x for x in a.args[1:] if x != lk][0]
+                if not member(expr_of(other)):
+                    raise Undecided(f'{fn.name}: look-ahead test {a!r}')
+                tr.append(('look', member(expr_of(other)), int(lk[4:-3]), val))
+            elif a.kind == 'is' and a.args[0] == 'None' or (a.kind == 'is' and a.args[1] == 'None' and a.args[0] == 'None'):
+                # a constant: `None is TokenType.X` (look-ahead absent) is false, `None is None` true
+                truth = a.args[1] == 'None'
+                if val != truth:
+                    return None
+            elif a.kind == 'is' and a.args[1] == 'None' and a.args[0].startswith('look'):
+                tr.append(('lookany', int(a.args[0][4:]), not val))
+            elif a.kind == 'truth' and a.args[0].startswith('look') and a.args[0][4:].isdigit():
+                tr.append(('lookany', int(a.args[0][4:]), val))
+            elif (a.kind == 'truth' and a.args[0].startswith('val')) or (a.kind == 'is' and a.args[0].startswith('val') and a.args[1] == 'None'):
+                pass    # payload assertions: discharged by the lexer facts (R4a)
             else:
-                n_rej += 1
-                if isinstance(res, Raised):
-                    # StopIteration is converted by parse (checked by R4a); anything but these two is an escape
-                    if res.exc.cls not in ('MesonException', 'StopIteration') and 'MesonException' not in res.exc.bases:
-                        bad.setdefault(f'{res.exc.cls} escapes where: {want[1]} :: {norm(node)}',
-                                       (node, f'the malformed token sequence `{text}` ({want[1]} at token {want[2]}) escapes as {res.exc!r}'))
-                    elif res.exc.cls == 'StopIteration' and want[2] < len(s):
-                        bad.setdefault(f'reads past: {want[1]} :: {norm(node)}',
-                                       (node, f'`{text}` is malformed at token {want[2]} ({want[1]}) but _parse reads on to the end of the stream'))
-                else:
-                    bad.setdefault(f'malformed input accepted where: {want[1]} :: {norm(node)}',
-                                   (node, f'the malformed token sequence `{text}` ({want[1]} at token {want[2]}) is accepted as {res!r} after {st.pos} tokens'))
-        total += n_ok + n_rej
-        for key, (node, msg) in list(bad.items())[before:]:
+                raise Undecided(f'{fn.name}: test outside the token vocabulary: {a!r}')
+            continue
+        if ev.kind != 'stmt' or st is None:
+            raise Undecided(f'{fn.name}: event {ev!r}')
+        if isinstance(st, (ast.Return, ast.Raise, ast.FunctionDef)):
+            continue
+        if isinstance(st, ast.Assign) and len(st.targets) == 1 and is_next(st.value):
+            t = st.targets[0]
+            if not (isinstance(t, ast.Tuple) and len(t.elts) == 2 and isinstance(t.elts[0], ast.Tuple) and len(t.elts[0].elts) == 2
+                    and all(isinstance(x, ast.Name) for x in list(t.elts[0].elts) + [t.elts[1]])):
+                raise Undecided(f'{fn.name}: read target {short(t)}')
+            reads += 1
+            cur = reads
+            env[t.elts[0].elts[0].id] = ast.Name(id=f'tok{reads}', ctx=ast.Load())     # type: ignore[attr-defined]
+            env[t.elts[0].elts[1].id] = ast.Name(id=f'val{reads}', ctx=ast.Load())     # type: ignore[attr-defined]
+            if t.elts[1].id != '_':     # type: ignore[attr-defined]
+                env[t.elts[1].id] = ast.Name(id=f'look{reads}', ctx=ast.Load())     # type: ignore[attr-defined]
+            tr.append(('read', reads))
+        elif isinstance(st, ast.Expr) and is_next(st.value):
+            reads += 1
+            tr.append(('skip', reads))
+        elif isinstance(st, ast.Expr) and isinstance(st.value, ast.Call) and norm(st.value.func) == 'assertToken':
+            mname = member(st.value.args[0]) if st.value.args else None
+            if mname is None:
+                raise Undecided(f'{fn.name}: {short(st)}')
+            tr.append(('expect', mname, cur))
+        elif isinstance(st, ast.Assign) and len(st.targets) == 1 and isinstance(st.targets[0], ast.Tuple) and len(st.targets[0].elts) == 2 \
+                and all(isinstance(x, ast.Name) for x in st.targets[0].elts):
+            # unpacking the look-ahead pair
+            v = resolve(st.value, env)
+            t0 = st.targets[0].elts[0].id     # type: ignore[attr-defined]
+            if isinstance(v, ast.Name) and v.id.startswith('look'):
+                env[t0] = ast.Name(id=f'looktok{v.id[4:]}', ctx=ast.Load())
+            elif isinstance(v, ast.Tuple) and all(isinstance(x, ast.Constant) and x.value is None for x in v.elts):
+                env[t0] = ast.Constant(None)
+            else:
+                raise Undecided(f'{fn.name}: {short(st)}')
+        elif isinstance(st, (ast.Assign, ast.AnnAssign)) and isinstance(st.targets[0] if isinstance(st, ast.Assign) else st.target, ast.Name):
+            name = (st.targets[0] if isinstance(st, ast.Assign) else st.target).id     # type: ignore[union-attr]
+            if st.value is not None:
+                env[name] = with_subs(resolve(st.value, env))
+        elif isinstance(st, ast.Expr) and isinstance(st.value, ast.Call) and isinstance(st.value.func, ast.Attribute) and st.value.func.attr == 'append' \
+                and isinstance(st.value.func.value, ast.Name) and isinstance(env.get(st.value.func.value.id), ast.List) and len(st.value.args) == 1:
+            lst = env[st.value.func.value.id]
+            env[st.value.func.value.id] = ast.List(elts=list(lst.elts) + [with_subs(resolve(st.value.args[0], env))], ctx=ast.Load())     # type: ignore[attr-defined]
+        else:
+            raise Undecided(f'{fn.name}: statement outside the parser vocabulary: {short(st)}')
+    if p.outcome == 'return':
+        out: T.Tuple[T.Any, ...] = ('return', norm(with_subs(resolve(p.value, env))) if p.value is not None else 'None')
+    elif p.outcome == 'raise':
+        e = p.value.func if isinstance(p.value, ast.Call) else p.value
+        out = ('raise', attr_chain(e) if e is not None else None)
+    else:
+        out = (p.outcome,)
+    return tr, out
+
+
+def _match_production(tr: T.List[T.Tuple[T.Any, ...]], out: T.Tuple[T.Any, ...], tmap: T.Dict[str, str]) -> T.Tuple[str, T.Optional[str]]:
+    """Is the abstract path a sentence of the cfg grammar (project tests: no trailing comma)?  -> (production, error)"""
+    items = list(tr)
+    pos = 0
+
+    def peek() -> T.Optional[T.Tuple[T.Any, ...]]:
+        return items[pos] if pos < len(items) else None
+
+    def take(kind: str, *want: T.Any) -> bool:
+        nonlocal pos
+        it = peek()
+        if it is not None and it[0] == kind and all(w is None or it[i + 1] == w for i, w in enumerate(want)):
+            pos += 1
+            return True
+        return False
+
+    def fmt(it: T.Optional[T.Tuple[T.Any, ...]]) -> str:
+        return 'the end of the path' if it is None else ' '.join(str(x) if not isinstance(x, frozenset) else '{' + ','.join(sorted(x)) + '}' for x in it)
+    if not take('read', 1):
+        return '?', f'the path starts with {fmt(peek())}, not with reading a token'
+    while take('lookany', 1, None):
+        pass
+    kind = None
+    while True:
+        it = peek()
+        if it is None or it[0] not in ('test', 'testin') or it[2] != 1:
+            break
+        pos += 1
+        if it[-1]:
+            if it[0] == 'test':
+                kind = it[1]
+            else:
+                kind = 'LIST' if it[1] == frozenset(('ANY', 'ALL')) else '?' + fmt(it)
+                # an inner test may narrow the member (type selection)
+            break
+    if kind is None:
+        if out == ('raise', 'MesonException') and peek() is None:
+            return 'unexpected token', None
+        return '?', f'no dispatch test succeeded but the path continues with {fmt(peek())} and ends by {out}'
+    if kind == 'IDENTIFIER':
+        if take('look', 'EQUAL', 1, True):
+            k0 = pos
+            if not (take('skip', None) and take('read', None)):
+                return 'name = "value"', f'after the look-ahead saw `=`, expected: skip it, read the next token; found {fmt(peek())}'
+            rd = items[pos - 1][1]
+            if not take('expect', 'STRING', rd):
+                return 'name = "value"', f'the token after `=` is not checked to be a STRING (found {fmt(peek())})'
+            if peek() is not None:
+                return 'name = "value"', f'unexpected {fmt(peek())}'
+            want = f'Equal(Identifier(val1), String(val{rd}))'
+            return 'name = "value"', None if out == ('return', want) else f'builds {out}; expected {want} (name from the first token, value from the STRING token)'
+        take('look', 'EQUAL', 1, False)
+        if peek() is not None:
+            return 'name', f'unexpected {fmt(peek())}'
+        return 'name', None if out == ('return', 'Identifier(val1)') else f'builds {out}; expected Identifier(val1)'
+    if kind in ('LIST', 'ALL', 'ANY'):
+        prod = 'all/any list'
+        if not take('read', None):
+            return prod, f'expected reading the token after the keyword, found {fmt(peek())}'
+        rd = items[pos - 1][1]
+        if not take('expect', 'LPAREN', rd):
+            return prod, f'the token after all/any is not checked to be `(` (found {fmt(peek())})'
+        subs: T.List[int] = []
+        if take('lookany', rd, True) and take('look', 'RPAREN', rd, True):
+            prod = 'all/any empty list'
+            if not take('read', None):
+                return prod, f'empty list: the `)` seen by the look-ahead is not consumed (found {fmt(peek())})'
+        else:
+            take('lookany', rd, False)
+            take('look', 'RPAREN', rd, False)
+            while True:
+                if not take('sub', None):
+                    return prod, f'expected a nested expression, found {fmt(peek())}'
+                subs.append(items[pos - 1][1])
+                if not take('read', None):
+                    return prod, f'expected reading the token after a list item, found {fmt(peek())}'
+                r2 = items[pos - 1][1]
+                if take('test', 'RPAREN', r2, True):
+                    break
+                if not (take('test', 'RPAREN', r2, False) and take('expect', 'COMMA', r2)):
+                    return prod, f'after a list item the token must be `)` (end) or be checked to be `,`; found {fmt(peek())}'
+        if peek() is not None:
+            return prod, f'unexpected {fmt(peek())} after the closing parenthesis'
+        args = '[' + ', '.join(f'sub{n}' for n in subs) + ']'
+        if out[0] != 'return':
+            return prod, f'ends by {out}'
+        e = expr_of(out[1])
+        if not (isinstance(e, ast.Call) and len(e.args) == 1 and norm(e.args[0]) == args and not e.keywords):
+            return prod, f'builds {out[1]}; expected <class>({args}) with the items in order'
+        f = e.func
+        if isinstance(f, ast.IfExp):
+            a, pol = tables.canon(f.test, True)
+            if not (a.kind == 'is' and a.args[0] == 'tok1' and a.args[1] in ('TokenType.ALL', 'TokenType.ANY') and isinstance(f.body, ast.Name) and isinstance(f.orelse, ast.Name)):
+                return prod, f'class selection {short(f)} is not a test of the keyword token'
+            m1 = a.args[1].split('.')[1]
+            m2 = 'ANY' if m1 == 'ALL' else 'ALL'
+            yes, no = (f.body.id, f.orelse.id) if pol else (f.orelse.id, f.body.id)
+            for mm, cc in ((m1, yes), (m2, no)):
+                if tmap.setdefault(mm, cc) != cc:
+                    return prod, f'TokenType.{mm} builds {cc} here but {tmap[mm]} elsewhere'
+        elif isinstance(f, ast.Name) and kind in ('ALL', 'ANY'):
+            if tmap.setdefault(kind, f.id) != f.id:
+                return prod, f'TokenType.{kind} builds {f.id} here but {tmap[kind]} elsewhere'
+        else:
+            return prod, f'class selection {short(f)} is not decidable'
+        return prod, None
+    if kind == 'NOT':
+        prod = 'not(...)'
+        if not take('read', None):
+            return prod, f'expected reading the token after `not`, found {fmt(peek())}'
+        rd = items[pos - 1][1]
+        if not take('expect', 'LPAREN', rd):
+            return prod, f'the token after `not` is not checked to be `(` (found {fmt(peek())})'
+        if not take('sub', None):
+            return prod, f'expected the nested expression, found {fmt(peek())}'
+        sn = items[pos - 1][1]
+        if not take('read', None):
+            return prod, f'expected reading the closing token, found {fmt(peek())}'
+        rd = items[pos - 1][1]
+        if not take('expect', 'RPAREN', rd):
+            return prod, f'the token after the operand of `not` is not checked to be `)` (found {fmt(peek())})'
+        if peek() is not None:
+            return prod, f'unexpected {fmt(peek())}'
+        if out[0] == 'return':
+            e = expr_of(out[1])
+            if isinstance(e, ast.Call) and isinstance(e.func, ast.Name) and [norm(a) for a in e.args] == [f'sub{sn}']:
+                if tmap.setdefault('NOT', e.func.id) != e.func.id:
+                    return prod, 'inconsistent class'
+                return prod, None
+        return prod, f'builds {out}; expected <class>(sub{sn})'
+    return '?', f'dispatch on {kind} is not a production of the cfg grammar'
+
+
+def _parse_analysis(ctx: RuleCtx, mod: Module, report: bool) -> T.Dict[str, T.Any]:
+    fn = mod.func('_parse')
+    paths = enumerate_paths(fn.body, unroll=2)
+    tmap: T.Dict[str, str] = {}
+    per: T.Dict[str, int] = {}
+    bad: T.Dict[str, T.Tuple[ast.AST, str]] = {}
+    for p in paths:
+        t = _trace(fn, p)
+        if t is None:
+            continue
+        tr, out = t
+        prod, err = _match_production(tr, out, tmap)
+        per[prod] = per.get(prod, 0) + 1
+        if err is not None:
+            node = [e.node for e in p.events if e.kind == 'stmt'][-1] if p.events else fn
+            bad.setdefault(f'{prod}: {err.split(";")[0].split("(found")[0].strip()} :: {norm(node)}',
+                           (node, f'production `{prod}`: {err}.  Path: {" > ".join(" ".join(str(x) if not isinstance(x, frozenset) else "{ALL,ANY}" for x in it) for it in tr)} => {" ".join(str(x) for x in out)}'))
+    if report:
+        for key, (node, msg) in bad.items():
             ctx.violation(mod, '_parse', key, msg, node)
-        if len(bad) == before:
-            ctx.ok(f'_parse: `{" ".join(v)}` and its single-edit neighbours: {n_ok} well-formed sequences build the grammar\'s IR, {n_rej} malformed ones are rejected at the offending token')
-    ctx.floor('_parse shape worlds', total, 300)
+        for prod in ('name', 'name = "value"', 'all/any list', 'all/any empty list', 'not(...)', 'unexpected token'):
+            if not any(k.startswith(prod + ':') for k in bad):
+                ctx.require(per.get(prod, 0) > 0, f'_parse: production `{prod}`: {per.get(prod, 0)} enumerated path(s) read / check / recurse / build exactly as the grammar prescribes',
+                            mod, '_parse', f'production {prod}', f'no path of _parse implements the production `{prod}`', fn)
+        ctx.floor('_parse paths abstracted', sum(per.values()), 10)
+        # assertToken itself: raises exactly when the current token is not the expected member
+        at = mod.func('_parse.assertToken')
+        t2 = tables.extract(at, name='assertToken')
+        want_atom = Atom('is', ('token', 'ARG1'))
+        for r in t2.rows:
+            ok = list(r.conds) == [want_atom] and ((r.conds[want_atom] is False and r.outcome == ('raise', 'MesonException')) or (r.conds[want_atom] is True and r.outcome[0] in ('fall', 'return')))
+            ctx.require(ok, f'assertToken: {"raises MesonException" if not r.conds.get(want_atom) else "passes"} when token is{"" if r.conds.get(want_atom) else " not"} the expected member',
+                        mod, '_parse.assertToken', f'assertToken row {r.conds.get(want_atom)}', f'assertToken row `{r!r}`; expected: raise MesonException iff `token is not <expected>`',
+                        r.path.events[-1].node if r.path.events else at)
+    return {'token_class': tmap, 'bad': bad, 'per': per}
+
+
+def r4_grammar(ctx: RuleCtx) -> None:
+    _parse_analysis(ctx, ctx.repo.module(CFGPY), report=True)
 
 
 def _exc_names(h: ast.ExceptHandler) -> T.List[str]:
@@ -967,7 +1511,6 @@ def _exc_names(h: ast.ExceptHandler) -> T.List[str]:
 
 def r4_escape(ctx: RuleCtx) -> None:
     mod = ctx.repo.module(CFGPY)
-    m = _cfg_models(ctx, mod)
     # (1) every raise in the module raises a MesonException (sub)class
     ok_classes = {'MesonException', 'MesonBugException'}
     imps = mod.imports()
@@ -1005,7 +1548,6 @@ def r4_escape(ctx: RuleCtx) -> None:
         catching = [h for h in handlers if set(_exc_names(h.ast)) & {'StopIteration', 'Exception', 'BaseException'}]   # type: ignore[arg-type]
         ok = bool(catching)
         for h in catching:
-            # every way out of the handler is a raise of MesonException
             reach = g.reachable([h])
             if g.exit_return.id in reach:
                 ok = False
@@ -1018,36 +1560,36 @@ def r4_escape(ctx: RuleCtx) -> None:
         ctx.require(ok, 'parse: running out of tokens inside _parse (StopIteration) is converted to MesonException', mod, 'parse', c,
                     'the _parse call in parse is not covered by an `except StopIteration` handler that always raises MesonException: '
                     'a truncated expression such as `all(a` would escape as StopIteration')
-    # every next(...) without default in _parse is a source of StopIteration: count them (they are all covered by (2))
     nexts = [c for c in ast.walk(inner) if isinstance(c, ast.Call) and isinstance(c.func, ast.Name) and c.func.id == 'next' and len(c.args) == 1]
     ctx.floor('next(ast) calls in _parse', len(nexts), 6)
-    # (3) after _parse the stream must be exhausted (decision table of parse over: leftover token yes/no)
-    for leftover in (False, True):
-        it = Interp(dict(m['env']), name='parse')
-        child = Obj('%child', ('IR',), {'n': 0}, strict=True)
-        holder: T.Dict[str, Stream] = {}
-
-        def lookahead(x: T.Any) -> Stream:
-            holder['s'] = _lookahead(list(x))
-            return holder['s']
-
-        def fake_parse(s: T.Any) -> Obj:
-            next(s)
-            return child
-        it.globals.set('lookahead', lookahead)
-        it.globals.set('_parse', fake_parse)
-        toks = [(m['token']._attrs['IDENTIFIER'], 'a')] + ([(m['token']._attrs['RPAREN'], None)] if leftover else [])
-        try:
-            res: T.Any = it.closure(parse)(toks)
-        except Raised as r:
-            res = r
+    # (3) after _parse the stream must be exhausted: decision table of parse (normal paths)
+    tab = tables.extract(parse, effects=eff, inline=False, name='parse')
+    seen = {'reject': 0, 'accept': 0}
+    for r in tab.rows:
+        env, rest = propagate(stmts_of(r))
+        left = None
+        for a, v in r.conds.items():
+            e_l, e_r = (expr_of(a.args[0]), a.args[1]) if a.kind == 'is' else (None, None)
+            if e_l is not None and e_r == 'None':
+                e_l = resolve(e_l, env)
+                if isinstance(e_l, ast.Call) and norm(e_l.func) == 'next' and len(e_l.args) == 2 and norm(e_l.args[1]) == 'None':
+                    left = (norm(e_l.args[0]), not v)
+        node = r.path.events[-1].node if r.path.events else parse
+        if left is None:
+            ctx.violation(mod, 'parse', f'leftover check :: {norm(node)}', f'row `{r!r}` ends by {r.outcome} without testing `next(<stream>, None) is None`: '
+                          f'trailing tokens (`cfg(a))`, `cfg(a b)`) would be accepted', node)
+            continue
+        stream, leftover = left
         if leftover:
-            ok = isinstance(res, Raised) and (res.exc.cls == 'MesonException' or 'MesonException' in res.exc.bases)
-            ctx.require(ok, 'parse: a token left after the expression is rejected with MesonException', mod, 'parse', _last_ret(it, parse),
-                        f'with a token left over after the expression (e.g. `cfg(a))`, `cfg(a b)`) parse gives {res.exc if isinstance(res, Raised) else res!r} instead of raising MesonException')
+            seen['reject'] += 1
+            ctx.require(r.outcome == ('raise', 'MesonException'), 'parse: a token left after the expression -> MesonException', mod, 'parse', f'leftover rejected :: {norm(node)}',
+                        f'with a token left in the stream the row ends by {r.outcome}', node)
         else:
-            ctx.require(res is child, 'parse: an exhausted stream returns the IR of _parse', mod, 'parse', _last_ret(it, parse),
-                        f'with the stream exhausted parse gives {res.exc if isinstance(res, Raised) else res!r} instead of the parsed IR')
+            seen['accept'] += 1
+            ret = norm(resolve(expr_of(r.outcome[1]), env)) if r.outcome[0] == 'return' else None
+            ctx.require(ret == f'_parse({stream})' and stream == f'lookahead(ARG1)', 'parse: an exhausted stream -> the IR of _parse(lookahead(tokens))', mod, 'parse',
+                        f'result :: {norm(node)}', f'with the stream exhausted the row ends by {r.outcome} (= {ret}); expected _parse(lookahead(ARG1)) on the same stream that is tested for leftovers', node)
+    ctx.floor('parse rows (reject / accept)', min(seen.values()), 1)
     # (4) every token read whose value is bound is checked (assertToken / identity test) before the parse goes on
     g2 = CFG(inner)
     reads = []
@@ -1083,7 +1625,6 @@ def r4_escape(ctx: RuleCtx) -> None:
             return True
         return any(isinstance(c, ast.Call) and isinstance(c.func, ast.Name) and c.func.id in ('next', '_parse') for c in walk_no_nested(e))
     progress = [n for n in g2.nodes if is_progress(n)]
-    # look-ahead names: the second component of a read target, and what is unpacked from it
     look: T.Set[str] = set()
     for rd in reads:
         t = rd.ast.targets[0]     # type: ignore[union-attr]
@@ -1094,8 +1635,7 @@ def r4_escape(ctx: RuleCtx) -> None:
             look |= {n.id for n in ast.walk(st.targets[0]) if isinstance(n, ast.Name) and n.id != '_'}
 
     def confirmed_by_lookahead(rd: T.Any) -> bool:
-        # walking backwards from the read, every way in comes through the True edge of a test on a look-ahead name
-        seen: T.Set[int] = set()
+        seen_n: T.Set[int] = set()
         todo = [rd.id]
         while todo:
             cur = todo.pop()
@@ -1107,8 +1647,8 @@ def r4_escape(ctx: RuleCtx) -> None:
                                                          for c in walk_no_nested(pn.expr()))     # type: ignore[arg-type]
                 if pn.kind == 'entry' or consumes or lab == 'exc':
                     return False    # another token was consumed in between: the look-ahead spoke about that one
-                if p not in seen:
-                    seen.add(p)
+                if p not in seen_n:
+                    seen_n.add(p)
                     todo.append(p)
         return True
     for rd in reads:
@@ -1121,52 +1661,56 @@ def r4_escape(ctx: RuleCtx) -> None:
         ctx.require(not esc, f'_parse: token read `{short(rd.ast, 50)}` ({how}) is checked before the parse continues', mod, '_parse',
                     rd.ast, f'after `{short(rd.ast, 60)}` the parse can continue to {where} without assertToken / a test of the token', rd.ast)
     ctx.floor('token reads in _parse', len(reads), 5)
-    # the asserts on token payloads are discharged by the lexer facts of R3b (identifiers are never empty, strings carry a str)
-    asserts = [n for n in walk_no_nested(inner) if isinstance(n, ast.Assert)]
+    # (5) payload asserts of _parse are discharged by the lexer table: IDENTIFIER only with a truthy word, STRING with a slice of the input
     lex = mod.func('lexer')
+    raw = lex.args.args[0].arg
+    for part, body in (('loop', [s for s in lex.body if isinstance(s, ast.For)][0].body), ('tail', lex.body[lex.body.index([s for s in lex.body if isinstance(s, ast.For)][0]) + 1:])):
+        tab = tables.extract(lex, body=body, effects=eff, inline=False, name=f'lexer:{part}')
+        okp = True
+        ny = 0
+        for r in tab.rows:
+            for st in stmts_of(r):
+                y = st.value.value if isinstance(st, ast.Expr) and isinstance(st.value, ast.Yield) else None
+                if not (isinstance(y, ast.Tuple) and len(y.elts) == 2):
+                    continue
+                mem = (attr_chain(y.elts[0]) or '').split('.')[-1]
+                if mem in ('IDENTIFIER', 'STRING'):
+                    ny += 1
+                    pv = norm(y.elts[1])
+                    defs = [s for s in walk_no_nested(lex) if isinstance(s, ast.Assign) and norm(s.targets[0]) == pv]
+                    sliced = bool(defs) and all(isinstance(d.value, ast.Subscript) and norm(d.value.value) == raw and isinstance(d.value.slice, ast.Slice) for d in defs)
+                    guarded = r.conds.get(Atom('truth', (pv,))) is True or r.conds.get(Atom('cmp', ('eq', pv, "''"))) is False
+                    if not sliced or (mem == 'IDENTIFIER' and not guarded):
+                        okp = False
+        ctx.require(okp and ny > 0, f'lexer ({part}): IDENTIFIER is yielded only under a truthy word, payloads are slices of the input (discharges the payload asserts of _parse)', mod, 'lexer',
+                    f'token payloads ({part})', 'the lexer can yield an IDENTIFIER without text or a payload that is not a str: `assert value` in _parse would escape as AssertionError')
+    asserts = [n for n in walk_no_nested(inner) if isinstance(n, ast.Assert)]
     for a in asserts:
-        names = {n.id for n in ast.walk(a.test) if isinstance(n, ast.Name)}
-        if names != {'value'}:
-            raise Undecided(f'_parse: assert on {sorted(names)}')
-    ys = [n for n in ast.walk(lex) if isinstance(n, ast.Yield)]
-    ident_ok = True
-    for text in ('a', 'a b', 'a,', ',,', '( )', '""', 'a=""', ' ', 'all', 'x y z', '"', 'a"b"c'):
-        it = Interp(dict(m['env']), name='lexer', max_steps=60000)
-        try:
-            out = it.closure(lex)(text)
-        except Raised as r:
-            raise _undecided_on_raise(f'lexer({text!r})', r)
-        for t, v in out:
-            if t.name == 'IDENTIFIER' and not (isinstance(v, str) and v):
-                ident_ok = False
-            if t.name == 'STRING' and not isinstance(v, str):
-                ident_ok = False
-    ctx.require(ident_ok and len(ys) >= 8, 'lexer: IDENTIFIER tokens carry a non-empty text, STRING tokens a str (discharges the payload asserts of _parse)', mod, 'lexer', 'token payloads',
-                'the lexer can yield an IDENTIFIER without text or a STRING without a str: `assert value` in _parse would escape as AssertionError')
-    # eval_cfg: only the cfg(...) wrapper is evaluated
+        if {n.id for n in ast.walk(a.test) if isinstance(n, ast.Name)} != {'value'}:
+            raise Undecided(f'_parse: assert on {short(a.test)}')
+    # (6) eval_cfg: only cfg(...) is evaluated, on the text between the parentheses
     ec = mod.func('eval_cfg')
-    for raw, want in (('cfg(X)', 'X'), ('cfg()', ''), ('unix', None), ('cfg(a', None), ('xcfg(a)', None)):
-        seen: T.List[T.Any] = []
-        it = Interp({'_eval_cfg': lambda ir, c: ('EV', ir), 'parse': lambda x: ('P', x), 'lexer': lambda s: seen.append(s) or ('L', s)}, name='eval_cfg')
-        try:
-            res = it.closure(ec)(raw, {})
-        except Raised as r:
-            raise _undecided_on_raise(f'eval_cfg({raw!r})', r)
-        if want is None:
-            ctx.require(res is False and not seen, f'eval_cfg({raw!r}) is False without parsing', mod, 'eval_cfg', f'eval_cfg {raw}', f'eval_cfg({raw!r}) gives {res!r} (lexed: {seen})')
-        else:
-            ctx.require(seen == [want] and res == ('EV', ('P', ('L', want))), f'eval_cfg({raw!r}) evaluates parse(lexer({want!r}))', mod, 'eval_cfg', f'eval_cfg {raw}',
-                        f'eval_cfg({raw!r}) lexes {seen} and returns {res!r}; expected the evaluation of parse(lexer({want!r}))')
+    t3 = tables.extract(ec, name='eval_cfg')
+    sw, ew = Atom('truth', ("ARG1.startswith('cfg(')",)), Atom('truth', ("ARG1.endswith(')')",))
+    if not set(t3.atoms()) <= {sw, ew}:
+        raise Undecided(f'eval_cfg: tests {t3.atoms()}')
+    for w in t3.worlds([sw, ew]):
+        rows = t3.fire(w)
+        if len(rows) != 1:
+            raise Undecided(f'eval_cfg: {len(rows)} rows for {w}')
+        want = "_eval_cfg(parse(lexer(ARG1[4:-1])), ARG2)" if (w[sw] and w[ew]) else 'False'
+        ctx.require(rows[0].outcome == ('return', want), f'eval_cfg: startswith cfg( = {w[sw]}, endswith ) = {w[ew]} -> {want}', mod, 'eval_cfg', f'eval_cfg {w[sw]} {w[ew]}',
+                    f'eval_cfg row `{rows[0]!r}`; expected return {want}', rows[0].path.events[-1].node if rows[0].path.events else ec)
 
 
 RULES = [
-    Rule('C20.R1a', 'split(): operator/wildcard canonicalisation table', r1_split),
-    Rule('C20.R1b', 'cargo_parse: per-operator constraint table, pre-release gate, conjunction', r1_cargo_parse),
-    Rule('C20.R1c', 'next_ver / list constructor / has_prerelease', r1_next_ver),
+    Rule('C20.R1a', 'split(): prefix chain, slice lengths, wildcard -> tilde, default caret', r1_split),
+    Rule('C20.R1b', 'cargo_parse: per-operator (comparator, bound) rows, sticky pre-release flag, matcher table', r1_cargo_parse),
+    Rule('C20.R1c', 'next_ver / list constructor / has_prerelease by expression shape', r1_next_ver),
     Rule('C20.R2a', 'SemVer: one comparison core, ranking keys [int below str, value, length]', r2_core),
-    Rule('C20.R2b', 'SemVer tokenizer: regex language facts and transition table on witness tokens', r2_tokens),
-    Rule('C20.R3a', '_eval_cfg: an arm with the reference denotation per IR class built by _parse', r3_eval),
-    Rule('C20.R3b', 'keyword -> token -> IR class maps agree', r3_maps),
-    Rule('C20.R4a', 'only MesonException escapes; StopIteration covered; stream exhausted; delimiters checked', r4_escape),
-    Rule('C20.R4b', '_parse one-level decision table over token-kind worlds equals the cfg grammar', r4_parse_table),
+    Rule('C20.R2b', 'SemVer tokenizer: regex language facts + decision table of the token loop (int conversion structure)', r2_tokens),
+    Rule('C20.R3a', '_eval_cfg: one arm per IR class built by _parse, with the denoting construct', r3_eval),
+    Rule('C20.R3b', 'lexer decision table; keyword -> token -> IR class -> builtin compose', r3_maps),
+    Rule('C20.R4a', 'only MesonException escapes; StopIteration covered; stream exhausted; token reads checked', r4_escape),
+    Rule('C20.R4b', '_parse: every enumerated path is a sentence of the cfg grammar and builds its IR', r4_grammar),
 ]
